@@ -6,171 +6,171 @@ namespace JanetModel.Lib.SrcTie
 open JanetModel.Gen
 
 /-- src/core/capi.c janet_gethalfrange -/
-theorem janet_gethalfrange : LibSrc.janet_gethalfrange = "{ int32_t raw = janet_getinteger(argv, n); int32_t not_raw = raw; if (not_raw < 0) not_raw += length + 1; if (not_raw < 0 || not_raw > length) janet_panicf(\"%s index %d out of range [%d,%d]\", which, (int64_t) raw, -(int64_t)length - 1, (int64_t) length); return not_raw; }" := rfl
+theorem janet_gethalfrange : LibSrc.janet_gethalfrange = "(const Janet *v1, int32_t v2, int32_t v3, const char *v4) { int32_t v5 = janet_getinteger(v1, v2); int32_t v6 = v5; if (v6 < 0) v6 += v3 + 1; if (v6 < 0 || v6 > v3) janet_panicf(\"%s index %d out of range [%d,%d]\", v4, (int64_t) v5, -(int64_t)v3 - 1, (int64_t) v3); return v6; }" := rfl
 /-- src/core/capi.c janet_getargindex -/
-theorem janet_getargindex : LibSrc.janet_getargindex = "{ int32_t raw = janet_getinteger(argv, n); int32_t not_raw = raw; if (not_raw < 0) not_raw += length; if (not_raw < 0 || not_raw > length) janet_panicf(\"%s index %d out of range [%d,%d)\", which, (int64_t)raw, -(int64_t)length, (int64_t)length); return not_raw; }" := rfl
+theorem janet_getargindex : LibSrc.janet_getargindex = "(const Janet *v1, int32_t v2, int32_t v3, const char *v4) { int32_t v5 = janet_getinteger(v1, v2); int32_t v6 = v5; if (v6 < 0) v6 += v3; if (v6 < 0 || v6 > v3) janet_panicf(\"%s index %d out of range [%d,%d)\", v4, (int64_t)v5, -(int64_t)v3, (int64_t)v3); return v6; }" := rfl
 /-- src/core/capi.c janet_getstartrange -/
-theorem janet_getstartrange : LibSrc.janet_getstartrange = "{ if (n >= argc || janet_checktype(argv[n], JANET_NIL)) { return 0; } return janet_gethalfrange(argv, n, length, \"start\"); }" := rfl
+theorem janet_getstartrange : LibSrc.janet_getstartrange = "(const Janet *v1, int32_t v2, int32_t v3, int32_t v4) { if (v3 >= v2 || janet_checktype(v1[v3], JANET_NIL)) { return 0; } return janet_gethalfrange(v1, v3, v4, \"start\"); }" := rfl
 /-- src/core/capi.c janet_getendrange -/
-theorem janet_getendrange : LibSrc.janet_getendrange = "{ if (n >= argc || janet_checktype(argv[n], JANET_NIL)) { return length; } return janet_gethalfrange(argv, n, length, \"end\"); }" := rfl
+theorem janet_getendrange : LibSrc.janet_getendrange = "(const Janet *v1, int32_t v2, int32_t v3, int32_t v4) { if (v3 >= v2 || janet_checktype(v1[v3], JANET_NIL)) { return v4; } return janet_gethalfrange(v1, v3, v4, \"end\"); }" := rfl
 /-- src/core/capi.c janet_getslice -/
-theorem janet_getslice : LibSrc.janet_getslice = "{ janet_arity(argc, 1, 3); JanetRange range; int32_t length = janet_length(argv[0]); range.start = janet_getstartrange(argv, argc, 1, length); range.end = janet_getendrange(argv, argc, 2, length); if (range.end < range.start) range.end = range.start; return range; }" := rfl
+theorem janet_getslice : LibSrc.janet_getslice = "(int32_t v1, const Janet *v2) { janet_arity(v1, 1, 3); JanetRange v3; int32_t v4 = janet_length(v2[0]); v3.start = janet_getstartrange(v2, v1, 1, v4); v3.end = janet_getendrange(v2, v1, 2, v4); if (v3.end < v3.start) v3.end = v3.start; return v3; }" := rfl
 /-- src/core/string.c kmp_init -/
-theorem kmp_init : LibSrc.kmp_init = "{ if (patlen == 0) { janet_panic(\"expected non-empty pattern\"); } int32_t *lookup = janet_calloc(patlen, sizeof(int32_t)); if (!lookup) { JANET_OUT_OF_MEMORY; } s->lookup = lookup; s->i = 0; s->j = 0; s->text = text; s->pat = pat; s->textlen = textlen; s->patlen = patlen; { int32_t i, j; for (i = 1, j = 0; i < patlen; i++) { while (j && pat[j] != pat[i]) j = lookup[j - 1]; if (pat[j] == pat[i]) j++; lookup[i] = j; } } }" := rfl
+theorem kmp_init : LibSrc.kmp_init = "( struct kmp_state *v1, const uint8_t *v2, int32_t v3, const uint8_t *v4, int32_t v5) { if (v5 == 0) { janet_panic(\"expected non-empty pattern\"); } int32_t *v6 = janet_calloc(v5, sizeof(int32_t)); if (!v6) { JANET_OUT_OF_MEMORY; } v1->lookup = v6; v1->i = 0; v1->j = 0; v1->text = v2; v1->pat = v4; v1->textlen = v3; v1->patlen = v5; { int32_t v7, v8; for (v7 = 1, v8 = 0; v7 < v5; v7++) { while (v8 && v4[v8] != v4[v7]) v8 = v6[v8 - 1]; if (v4[v8] == v4[v7]) v8++; v6[v7] = v8; } } }" := rfl
 /-- src/core/string.c kmp_seti -/
-theorem kmp_seti : LibSrc.kmp_seti = "{ state->i = i; state->j = 0; }" := rfl
+theorem kmp_seti : LibSrc.kmp_seti = "(struct kmp_state *v1, int32_t v2) { v1->i = v2; v1->j = 0; }" := rfl
 /-- src/core/string.c kmp_next -/
-theorem kmp_next : LibSrc.kmp_next = "{ int32_t i = state->i; int32_t j = state->j; int32_t textlen = state->textlen; int32_t patlen = state->patlen; const uint8_t *text = state->text; const uint8_t *pat = state->pat; int32_t *lookup = state->lookup; while (i < textlen) { if (text[i] == pat[j]) { if (j == patlen - 1) { state->i = i + 1; state->j = lookup[j]; return i - j; } else { i++; j++; } } else { if (j > 0) { j = lookup[j - 1]; } else { i++; } } } return -1; }" := rfl
+theorem kmp_next : LibSrc.kmp_next = "(struct kmp_state *v1) { int32_t v2 = v1->i; int32_t v3 = v1->j; int32_t v4 = v1->textlen; int32_t v5 = v1->patlen; const uint8_t *v6 = v1->text; const uint8_t *v7 = v1->pat; int32_t *v8 = v1->lookup; while (v2 < v4) { if (v6[v2] == v7[v3]) { if (v3 == v5 - 1) { v1->i = v2 + 1; v1->j = v8[v3]; return v2 - v3; } else { v2++; v3++; } } else { if (v3 > 0) { v3 = v8[v3 - 1]; } else { v2++; } } } return -1; }" := rfl
 /-- src/core/string.c findsetup -/
-theorem findsetup : LibSrc.findsetup = "{ janet_arity(argc, 2, 3 + extra); JanetByteView pat = janet_getbytes(argv, 0); JanetByteView text = janet_getbytes(argv, 1); int32_t start = 0; if (argc >= 3) { start = janet_getinteger(argv, 2); if (start < 0) janet_panic(\"expected non-negative start index\"); } kmp_init(s, text.bytes, text.len, pat.bytes, pat.len); s->i = start; }" := rfl
+theorem findsetup : LibSrc.findsetup = "(int32_t v1, Janet *v2, struct kmp_state *v3, int32_t v4) { janet_arity(v1, 2, 3 + v4); JanetByteView v5 = janet_getbytes(v2, 0); JanetByteView v6 = janet_getbytes(v2, 1); int32_t v7 = 0; if (v1 >= 3) { v7 = janet_getinteger(v2, 2); if (v7 < 0) janet_panic(\"expected non-negative start index\"); } kmp_init(v3, v6.bytes, v6.len, v5.bytes, v5.len); v3->i = v7; }" := rfl
 /-- src/core/string.c replacesetup -/
-theorem replacesetup : LibSrc.replacesetup = "{ janet_arity(argc, 3, 4); JanetByteView pat = janet_getbytes(argv, 0); Janet subst = argv[1]; JanetByteView text = janet_getbytes(argv, 2); int32_t start = 0; if (argc == 4) { start = janet_getinteger(argv, 3); if (start < 0) janet_panic(\"expected non-negative start index\"); } kmp_init(&s->kmp, text.bytes, text.len, pat.bytes, pat.len); s->kmp.i = start; s->subst = subst; }" := rfl
+theorem replacesetup : LibSrc.replacesetup = "(int32_t v1, Janet *v2, struct replace_state *v3) { janet_arity(v1, 3, 4); JanetByteView v4 = janet_getbytes(v2, 0); Janet v5 = v2[1]; JanetByteView v6 = janet_getbytes(v2, 2); int32_t v7 = 0; if (v1 == 4) { v7 = janet_getinteger(v2, 3); if (v7 < 0) janet_panic(\"expected non-negative start index\"); } kmp_init(&v3->kmp, v6.bytes, v6.len, v4.bytes, v4.len); v3->kmp.i = v7; v3->subst = v5; }" := rfl
 /-- src/core/string.c cfun_string_find -/
-theorem cfun_string_find : LibSrc.cfun_string_find = "{ int32_t result; struct kmp_state state; findsetup(argc, argv, &state, 0); result = kmp_next(&state); kmp_deinit(&state); return result < 0 ? janet_wrap_nil() : janet_wrap_integer(result); }" := rfl
+theorem cfun_string_find : LibSrc.cfun_string_find = "(int32_t v1, Janet *v2) { int32_t v3; struct kmp_state v4; findsetup(v1, v2, &v4, 0); v3 = kmp_next(&v4); kmp_deinit(&v4); return v3 < 0 ? janet_wrap_nil() : janet_wrap_integer(v3); }" := rfl
 /-- src/core/string.c cfun_string_findall -/
-theorem cfun_string_findall : LibSrc.cfun_string_findall = "{ int32_t result; struct kmp_state state; findsetup(argc, argv, &state, 0); JanetArray *array = janet_array(0); while ((result = kmp_next(&state)) >= 0) { janet_array_push(array, janet_wrap_integer(result)); } kmp_deinit(&state); return janet_wrap_array(array); }" := rfl
+theorem cfun_string_findall : LibSrc.cfun_string_findall = "(int32_t v1, Janet *v2) { int32_t v3; struct kmp_state v4; findsetup(v1, v2, &v4, 0); JanetArray *v5 = janet_array(0); while ((v3 = kmp_next(&v4)) >= 0) { janet_array_push(v5, janet_wrap_integer(v3)); } kmp_deinit(&v4); return janet_wrap_array(v5); }" := rfl
 /-- src/core/string.c cfun_string_replace -/
-theorem cfun_string_replace : LibSrc.cfun_string_replace = "{ int32_t result; struct replace_state s; uint8_t *buf; replacesetup(argc, argv, &s); result = kmp_next(&s.kmp); if (result < 0) { kmp_deinit(&s.kmp); return janet_stringv(s.kmp.text, s.kmp.textlen); } JanetByteView subst = janet_text_substitution(&s.subst, s.kmp.text + result, s.kmp.patlen, NULL); buf = janet_string_begin(s.kmp.textlen - s.kmp.patlen + subst.len); safe_memcpy(buf, s.kmp.text, result); safe_memcpy(buf + result, subst.bytes, subst.len); safe_memcpy(buf + result + subst.len, s.kmp.text + result + s.kmp.patlen, s.kmp.textlen - result - s.kmp.patlen); kmp_deinit(&s.kmp); return janet_wrap_string(janet_string_end(buf)); }" := rfl
+theorem cfun_string_replace : LibSrc.cfun_string_replace = "(int32_t v1, Janet *v2) { int32_t v3; struct replace_state v4; uint8_t *v5; replacesetup(v1, v2, &v4); v3 = kmp_next(&v4.kmp); if (v3 < 0) { kmp_deinit(&v4.kmp); return janet_stringv(v4.kmp.text, v4.kmp.textlen); } JanetByteView v6 = janet_text_substitution(&v4.subst, v4.kmp.text + v3, v4.kmp.patlen, NULL); v5 = janet_string_begin(v4.kmp.textlen - v4.kmp.patlen + v6.len); safe_memcpy(v5, v4.kmp.text, v3); safe_memcpy(v5 + v3, v6.bytes, v6.len); safe_memcpy(v5 + v3 + v6.len, v4.kmp.text + v3 + v4.kmp.patlen, v4.kmp.textlen - v3 - v4.kmp.patlen); kmp_deinit(&v4.kmp); return janet_wrap_string(janet_string_end(v5)); }" := rfl
 /-- src/core/string.c cfun_string_replaceall -/
-theorem cfun_string_replaceall : LibSrc.cfun_string_replaceall = "{ int32_t result; struct replace_state s; JanetBuffer b; int32_t lastindex = 0; replacesetup(argc, argv, &s); janet_buffer_init(&b, s.kmp.textlen); while ((result = kmp_next(&s.kmp)) >= 0) { JanetByteView subst = janet_text_substitution(&s.subst, s.kmp.text + result, s.kmp.patlen, NULL); janet_buffer_push_bytes(&b, s.kmp.text + lastindex, result - lastindex); janet_buffer_push_bytes(&b, subst.bytes, subst.len); lastindex = result + s.kmp.patlen; kmp_seti(&s.kmp, lastindex); } janet_buffer_push_bytes(&b, s.kmp.text + lastindex, s.kmp.textlen - lastindex); const uint8_t *ret = janet_string(b.data, b.count); janet_buffer_deinit(&b); kmp_deinit(&s.kmp); return janet_wrap_string(ret); }" := rfl
+theorem cfun_string_replaceall : LibSrc.cfun_string_replaceall = "(int32_t v1, Janet *v2) { int32_t v3; struct replace_state v4; JanetBuffer v5; int32_t v6 = 0; replacesetup(v1, v2, &v4); janet_buffer_init(&v5, v4.kmp.textlen); while ((v3 = kmp_next(&v4.kmp)) >= 0) { JanetByteView v7 = janet_text_substitution(&v4.subst, v4.kmp.text + v3, v4.kmp.patlen, NULL); janet_buffer_push_bytes(&v5, v4.kmp.text + v6, v3 - v6); janet_buffer_push_bytes(&v5, v7.bytes, v7.len); v6 = v3 + v4.kmp.patlen; kmp_seti(&v4.kmp, v6); } janet_buffer_push_bytes(&v5, v4.kmp.text + v6, v4.kmp.textlen - v6); const uint8_t *v8 = janet_string(v5.data, v5.count); janet_buffer_deinit(&v5); kmp_deinit(&v4.kmp); return janet_wrap_string(v8); }" := rfl
 /-- src/core/string.c cfun_string_split -/
-theorem cfun_string_split : LibSrc.cfun_string_split = "{ int32_t result; JanetArray *array; struct kmp_state state; int32_t limit = -1, lastindex = 0; if (argc == 4) { limit = janet_getinteger(argv, 3); } findsetup(argc, argv, &state, 1); array = janet_array(0); while ((result = kmp_next(&state)) >= 0 && (limit < 0 || --limit)) { const uint8_t *slice = janet_string(state.text + lastindex, result - lastindex); janet_array_push(array, janet_wrap_string(slice)); lastindex = result + state.patlen; kmp_seti(&state, lastindex); } const uint8_t *slice = janet_string(state.text + lastindex, state.textlen - lastindex); janet_array_push(array, janet_wrap_string(slice)); kmp_deinit(&state); return janet_wrap_array(array); }" := rfl
+theorem cfun_string_split : LibSrc.cfun_string_split = "(int32_t v1, Janet *v2) { int32_t v3; JanetArray *v4; struct kmp_state v5; int32_t v6 = -1, v7 = 0; if (v1 == 4) { v6 = janet_getinteger(v2, 3); } findsetup(v1, v2, &v5, 1); v4 = janet_array(0); while ((v3 = kmp_next(&v5)) >= 0 && (v6 < 0 || --v6)) { const uint8_t *v8 = janet_string(v5.text + v7, v3 - v7); janet_array_push(v4, janet_wrap_string(v8)); v7 = v3 + v5.patlen; kmp_seti(&v5, v7); } const uint8_t *v8 = janet_string(v5.text + v7, v5.textlen - v7); janet_array_push(v4, janet_wrap_string(v8)); kmp_deinit(&v5); return janet_wrap_array(v4); }" := rfl
 /-- src/core/string.c cfun_string_join -/
-theorem cfun_string_join : LibSrc.cfun_string_join = "{ janet_arity(argc, 1, 2); JanetView parts = janet_getindexed(argv, 0); JanetByteView joiner; if (argc == 2) { joiner = janet_getbytes(argv, 1); } else { joiner.bytes = NULL; joiner.len = 0; } int32_t i; int64_t finallen = 0; for (i = 0; i < parts.len; i++) { const uint8_t *chunk; int32_t chunklen = 0; if (!janet_bytes_view(parts.items[i], &chunk, &chunklen)) { janet_panicf(\"item %d of parts is not a byte sequence, got %v\", i, parts.items[i]); } if (i) finallen += joiner.len; finallen += chunklen; if (finallen > INT32_MAX) janet_panic(\"result string too long\"); } uint8_t *buf, *out; out = buf = janet_string_begin((int32_t) finallen); for (i = 0; i < parts.len; i++) { const uint8_t *chunk = NULL; int32_t chunklen = 0; if (i) { safe_memcpy(out, joiner.bytes, joiner.len); out += joiner.len; } janet_bytes_view(parts.items[i], &chunk, &chunklen); safe_memcpy(out, chunk, chunklen); out += chunklen; } return janet_wrap_string(janet_string_end(buf)); }" := rfl
+theorem cfun_string_join : LibSrc.cfun_string_join = "(int32_t v1, Janet *v2) { janet_arity(v1, 1, 2); JanetView v3 = janet_getindexed(v2, 0); JanetByteView v4; if (v1 == 2) { v4 = janet_getbytes(v2, 1); } else { v4.bytes = NULL; v4.len = 0; } int32_t v5; int64_t v6 = 0; for (v5 = 0; v5 < v3.len; v5++) { const uint8_t *v7; int32_t v8 = 0; if (!janet_bytes_view(v3.items[v5], &v7, &v8)) { janet_panicf(\"item %d of parts is not a byte sequence, got %v\", v5, v3.items[v5]); } if (v5) v6 += v4.len; v6 += v8; if (v6 > INT32_MAX) janet_panic(\"result string too long\"); } uint8_t *v9, *v10; v10 = v9 = janet_string_begin((int32_t) v6); for (v5 = 0; v5 < v3.len; v5++) { const uint8_t *v7 = NULL; int32_t v8 = 0; if (v5) { safe_memcpy(v10, v4.bytes, v4.len); v10 += v4.len; } janet_bytes_view(v3.items[v5], &v7, &v8); safe_memcpy(v10, v7, v8); v10 += v8; } return janet_wrap_string(janet_string_end(v9)); }" := rfl
 /-- src/core/string.c cfun_string_slice -/
-theorem cfun_string_slice : LibSrc.cfun_string_slice = "{ JanetByteView view = janet_getbytes(argv, 0); JanetRange range = janet_getslice(argc, argv); return janet_stringv(view.bytes + range.start, range.end - range.start); }" := rfl
+theorem cfun_string_slice : LibSrc.cfun_string_slice = "(int32_t v1, Janet *v2) { JanetByteView v3 = janet_getbytes(v2, 0); JanetRange v4 = janet_getslice(v1, v2); return janet_stringv(v3.bytes + v4.start, v4.end - v4.start); }" := rfl
 /-- src/core/string.c cfun_string_repeat -/
-theorem cfun_string_repeat : LibSrc.cfun_string_repeat = "{ janet_fixarity(argc, 2); JanetByteView view = janet_getbytes(argv, 0); int32_t rep = janet_getinteger(argv, 1); if (rep < 0) janet_panic(\"expected non-negative number of repetitions\"); if (rep == 0) return janet_cstringv(\"\"); int64_t mulres = (int64_t) rep * view.len; if (mulres > INT32_MAX) janet_panic(\"result string is too long\"); uint8_t *newbuf = janet_string_begin((int32_t) mulres); uint8_t *end = newbuf + mulres; for (uint8_t *p = newbuf; p < end; p += view.len) { safe_memcpy(p, view.bytes, view.len); } return janet_wrap_string(janet_string_end(newbuf)); }" := rfl
+theorem cfun_string_repeat : LibSrc.cfun_string_repeat = "(int32_t v1, Janet *v2) { janet_fixarity(v1, 2); JanetByteView v3 = janet_getbytes(v2, 0); int32_t v4 = janet_getinteger(v2, 1); if (v4 < 0) janet_panic(\"expected non-negative number of repetitions\"); if (v4 == 0) return janet_cstringv(\"\"); int64_t v5 = (int64_t) v4 * v3.len; if (v5 > INT32_MAX) janet_panic(\"result string is too long\"); uint8_t *v6 = janet_string_begin((int32_t) v5); uint8_t *v7 = v6 + v5; for (uint8_t *v8 = v6; v8 < v7; v8 += v3.len) { safe_memcpy(v8, v3.bytes, v3.len); } return janet_wrap_string(janet_string_end(v6)); }" := rfl
 /-- src/core/string.c cfun_string_bytes -/
-theorem cfun_string_bytes : LibSrc.cfun_string_bytes = "{ janet_fixarity(argc, 1); JanetByteView view = janet_getbytes(argv, 0); Janet *tup = janet_tuple_begin(view.len); int32_t i; for (i = 0; i < view.len; i++) { tup[i] = janet_wrap_integer((int32_t) view.bytes[i]); } return janet_wrap_tuple(janet_tuple_end(tup)); }" := rfl
+theorem cfun_string_bytes : LibSrc.cfun_string_bytes = "(int32_t v1, Janet *v2) { janet_fixarity(v1, 1); JanetByteView v3 = janet_getbytes(v2, 0); Janet *v4 = janet_tuple_begin(v3.len); int32_t v5; for (v5 = 0; v5 < v3.len; v5++) { v4[v5] = janet_wrap_integer((int32_t) v3.bytes[v5]); } return janet_wrap_tuple(janet_tuple_end(v4)); }" := rfl
 /-- src/core/string.c cfun_string_frombytes -/
-theorem cfun_string_frombytes : LibSrc.cfun_string_frombytes = "{ int32_t i; uint8_t *buf = janet_string_begin(argc); for (i = 0; i < argc; i++) { int32_t c = janet_getinteger(argv, i); buf[i] = c & 0xFF; } return janet_wrap_string(janet_string_end(buf)); }" := rfl
+theorem cfun_string_frombytes : LibSrc.cfun_string_frombytes = "(int32_t v1, Janet *v2) { int32_t v3; uint8_t *v4 = janet_string_begin(v1); for (v3 = 0; v3 < v1; v3++) { int32_t v5 = janet_getinteger(v2, v3); v4[v3] = v5 & 0xFF; } return janet_wrap_string(janet_string_end(v4)); }" := rfl
 /-- src/core/string.c cfun_string_asciilower -/
-theorem cfun_string_asciilower : LibSrc.cfun_string_asciilower = "{ janet_fixarity(argc, 1); JanetByteView view = janet_getbytes(argv, 0); uint8_t *buf = janet_string_begin(view.len); for (int32_t i = 0; i < view.len; i++) { uint8_t c = view.bytes[i]; if (c >= 65 && c <= 90) { buf[i] = c + 32; } else { buf[i] = c; } } return janet_wrap_string(janet_string_end(buf)); }" := rfl
+theorem cfun_string_asciilower : LibSrc.cfun_string_asciilower = "(int32_t v1, Janet *v2) { janet_fixarity(v1, 1); JanetByteView v3 = janet_getbytes(v2, 0); uint8_t *v4 = janet_string_begin(v3.len); for (int32_t v5 = 0; v5 < v3.len; v5++) { uint8_t v6 = v3.bytes[v5]; if (v6 >= 65 && v6 <= 90) { v4[v5] = v6 + 32; } else { v4[v5] = v6; } } return janet_wrap_string(janet_string_end(v4)); }" := rfl
 /-- src/core/string.c cfun_string_asciiupper -/
-theorem cfun_string_asciiupper : LibSrc.cfun_string_asciiupper = "{ janet_fixarity(argc, 1); JanetByteView view = janet_getbytes(argv, 0); uint8_t *buf = janet_string_begin(view.len); for (int32_t i = 0; i < view.len; i++) { uint8_t c = view.bytes[i]; if (c >= 97 && c <= 122) { buf[i] = c - 32; } else { buf[i] = c; } } return janet_wrap_string(janet_string_end(buf)); }" := rfl
+theorem cfun_string_asciiupper : LibSrc.cfun_string_asciiupper = "(int32_t v1, Janet *v2) { janet_fixarity(v1, 1); JanetByteView v3 = janet_getbytes(v2, 0); uint8_t *v4 = janet_string_begin(v3.len); for (int32_t v5 = 0; v5 < v3.len; v5++) { uint8_t v6 = v3.bytes[v5]; if (v6 >= 97 && v6 <= 122) { v4[v5] = v6 - 32; } else { v4[v5] = v6; } } return janet_wrap_string(janet_string_end(v4)); }" := rfl
 /-- src/core/string.c cfun_string_reverse -/
-theorem cfun_string_reverse : LibSrc.cfun_string_reverse = "{ janet_fixarity(argc, 1); JanetByteView view = janet_getbytes(argv, 0); uint8_t *buf = janet_string_begin(view.len); int32_t i, j; for (i = 0, j = view.len - 1; i < view.len; i++, j--) { buf[i] = view.bytes[j]; } return janet_wrap_string(janet_string_end(buf)); }" := rfl
+theorem cfun_string_reverse : LibSrc.cfun_string_reverse = "(int32_t v1, Janet *v2) { janet_fixarity(v1, 1); JanetByteView v3 = janet_getbytes(v2, 0); uint8_t *v4 = janet_string_begin(v3.len); int32_t v5, v6; for (v5 = 0, v6 = v3.len - 1; v5 < v3.len; v5++, v6--) { v4[v5] = v3.bytes[v6]; } return janet_wrap_string(janet_string_end(v4)); }" := rfl
 /-- src/core/string.c cfun_string_hasprefix -/
-theorem cfun_string_hasprefix : LibSrc.cfun_string_hasprefix = "{ janet_fixarity(argc, 2); JanetByteView prefix = janet_getbytes(argv, 0); JanetByteView str = janet_getbytes(argv, 1); return str.len < prefix.len ? janet_wrap_false() : janet_wrap_boolean(memcmp(prefix.bytes, str.bytes, prefix.len) == 0); }" := rfl
+theorem cfun_string_hasprefix : LibSrc.cfun_string_hasprefix = "(int32_t v1, Janet *v2) { janet_fixarity(v1, 2); JanetByteView v3 = janet_getbytes(v2, 0); JanetByteView v4 = janet_getbytes(v2, 1); return v4.len < v3.len ? janet_wrap_false() : janet_wrap_boolean(memcmp(v3.bytes, v4.bytes, v3.len) == 0); }" := rfl
 /-- src/core/string.c cfun_string_hassuffix -/
-theorem cfun_string_hassuffix : LibSrc.cfun_string_hassuffix = "{ janet_fixarity(argc, 2); JanetByteView suffix = janet_getbytes(argv, 0); JanetByteView str = janet_getbytes(argv, 1); return str.len < suffix.len ? janet_wrap_false() : janet_wrap_boolean(memcmp(suffix.bytes, str.bytes + str.len - suffix.len, suffix.len) == 0); }" := rfl
+theorem cfun_string_hassuffix : LibSrc.cfun_string_hassuffix = "(int32_t v1, Janet *v2) { janet_fixarity(v1, 2); JanetByteView v3 = janet_getbytes(v2, 0); JanetByteView v4 = janet_getbytes(v2, 1); return v4.len < v3.len ? janet_wrap_false() : janet_wrap_boolean(memcmp(v3.bytes, v4.bytes + v4.len - v3.len, v3.len) == 0); }" := rfl
 /-- src/core/string.c cfun_string_checkset -/
-theorem cfun_string_checkset : LibSrc.cfun_string_checkset = "{ uint32_t bitset[8] = {0, 0, 0, 0, 0, 0, 0, 0}; janet_fixarity(argc, 2); JanetByteView set = janet_getbytes(argv, 0); JanetByteView str = janet_getbytes(argv, 1); for (int32_t i = 0; i < set.len; i++) { int index = set.bytes[i] >> 5; uint32_t mask = (uint32_t) 1 << (set.bytes[i] & 0x1F); bitset[index] |= mask; } for (int32_t i = 0; i < str.len; i++) { int index = str.bytes[i] >> 5; uint32_t mask = (uint32_t) 1 << (str.bytes[i] & 0x1F); if (!(bitset[index] & mask)) { return janet_wrap_false(); } } return janet_wrap_true(); }" := rfl
+theorem cfun_string_checkset : LibSrc.cfun_string_checkset = "(int32_t v1, Janet *v2) { uint32_t v3[8] = {0, 0, 0, 0, 0, 0, 0, 0}; janet_fixarity(v1, 2); JanetByteView v4 = janet_getbytes(v2, 0); JanetByteView v5 = janet_getbytes(v2, 1); for (int32_t v6 = 0; v6 < v4.len; v6++) { int v7 = v4.bytes[v6] >> 5; uint32_t v8 = (uint32_t) 1 << (v4.bytes[v6] & 0x1F); v3[v7] |= v8; } for (int32_t v6 = 0; v6 < v5.len; v6++) { int v7 = v5.bytes[v6] >> 5; uint32_t v8 = (uint32_t) 1 << (v5.bytes[v6] & 0x1F); if (!(v3[v7] & v8)) { return janet_wrap_false(); } } return janet_wrap_true(); }" := rfl
 /-- src/core/string.c trim_help_checkset -/
-theorem trim_help_checkset : LibSrc.trim_help_checkset = "{ for (int32_t j = 0; j < set.len; j++) if (set.bytes[j] == x) return 1; return 0; }" := rfl
+theorem trim_help_checkset : LibSrc.trim_help_checkset = "(JanetByteView v1, uint8_t v2) { for (int32_t v3 = 0; v3 < v1.len; v3++) if (v1.bytes[v3] == v2) return 1; return 0; }" := rfl
 /-- src/core/string.c trim_help_leftedge -/
-theorem trim_help_leftedge : LibSrc.trim_help_leftedge = "{ for (int32_t i = 0; i < str.len; i++) if (!trim_help_checkset(set, str.bytes[i])) return i; return str.len; }" := rfl
+theorem trim_help_leftedge : LibSrc.trim_help_leftedge = "(JanetByteView v1, JanetByteView v2) { for (int32_t v3 = 0; v3 < v1.len; v3++) if (!trim_help_checkset(v2, v1.bytes[v3])) return v3; return v1.len; }" := rfl
 /-- src/core/string.c trim_help_rightedge -/
-theorem trim_help_rightedge : LibSrc.trim_help_rightedge = "{ for (int32_t i = str.len - 1; i >= 0; i--) if (!trim_help_checkset(set, str.bytes[i])) return i + 1; return 0; }" := rfl
+theorem trim_help_rightedge : LibSrc.trim_help_rightedge = "(JanetByteView v1, JanetByteView v2) { for (int32_t v3 = v1.len - 1; v3 >= 0; v3--) if (!trim_help_checkset(v2, v1.bytes[v3])) return v3 + 1; return 0; }" := rfl
 /-- src/core/string.c trim_help_args -/
-theorem trim_help_args : LibSrc.trim_help_args = "{ janet_arity(argc, 1, 2); *str = janet_getbytes(argv, 0); if (argc >= 2) { *set = janet_getbytes(argv, 1); } else { set->bytes = (const uint8_t *)(\" \\t\\r\\n\\v\\f\"); set->len = 6; } }" := rfl
+theorem trim_help_args : LibSrc.trim_help_args = "(int32_t v1, Janet *v2, JanetByteView *v3, JanetByteView *v4) { janet_arity(v1, 1, 2); *v3 = janet_getbytes(v2, 0); if (v1 >= 2) { *v4 = janet_getbytes(v2, 1); } else { v4->bytes = (const uint8_t *)(\" \\t\\r\\n\\v\\f\"); v4->len = 6; } }" := rfl
 /-- src/core/string.c cfun_string_trim -/
-theorem cfun_string_trim : LibSrc.cfun_string_trim = "{ JanetByteView str, set; trim_help_args(argc, argv, &str, &set); int32_t left_edge = trim_help_leftedge(str, set); int32_t right_edge = trim_help_rightedge(str, set); if (right_edge < left_edge) return janet_stringv(NULL, 0); return janet_stringv(str.bytes + left_edge, right_edge - left_edge); }" := rfl
+theorem cfun_string_trim : LibSrc.cfun_string_trim = "(int32_t v1, Janet *v2) { JanetByteView v3, v4; trim_help_args(v1, v2, &v3, &v4); int32_t v5 = trim_help_leftedge(v3, v4); int32_t v6 = trim_help_rightedge(v3, v4); if (v6 < v5) return janet_stringv(NULL, 0); return janet_stringv(v3.bytes + v5, v6 - v5); }" := rfl
 /-- src/core/string.c cfun_string_triml -/
-theorem cfun_string_triml : LibSrc.cfun_string_triml = "{ JanetByteView str, set; trim_help_args(argc, argv, &str, &set); int32_t left_edge = trim_help_leftedge(str, set); return janet_stringv(str.bytes + left_edge, str.len - left_edge); }" := rfl
+theorem cfun_string_triml : LibSrc.cfun_string_triml = "(int32_t v1, Janet *v2) { JanetByteView v3, v4; trim_help_args(v1, v2, &v3, &v4); int32_t v5 = trim_help_leftedge(v3, v4); return janet_stringv(v3.bytes + v5, v3.len - v5); }" := rfl
 /-- src/core/string.c cfun_string_trimr -/
-theorem cfun_string_trimr : LibSrc.cfun_string_trimr = "{ JanetByteView str, set; trim_help_args(argc, argv, &str, &set); int32_t right_edge = trim_help_rightedge(str, set); return janet_stringv(str.bytes, right_edge); }" := rfl
+theorem cfun_string_trimr : LibSrc.cfun_string_trimr = "(int32_t v1, Janet *v2) { JanetByteView v3, v4; trim_help_args(v1, v2, &v3, &v4); int32_t v5 = trim_help_rightedge(v3, v4); return janet_stringv(v3.bytes, v5); }" := rfl
 /-- src/core/buffer.c janet_buffer_extra -/
-theorem janet_buffer_extra : LibSrc.janet_buffer_extra = "{ if ((int64_t)n + buffer->count > INT32_MAX) { janet_panic(\"buffer overflow\"); } int32_t new_size = buffer->count + n; if (new_size > buffer->capacity) { janet_buffer_can_realloc(buffer); int32_t new_capacity = (new_size > (INT32_MAX / 2)) ? INT32_MAX : (new_size * 2); uint8_t *new_data = janet_realloc(buffer->data, new_capacity * sizeof(uint8_t)); janet_gcpressure(new_capacity - buffer->capacity); if (NULL == new_data) { JANET_OUT_OF_MEMORY; } buffer->data = new_data; buffer->capacity = new_capacity; } }" := rfl
+theorem janet_buffer_extra : LibSrc.janet_buffer_extra = "(JanetBuffer *v1, int32_t v2) { if ((int64_t)v2 + v1->count > INT32_MAX) { janet_panic(\"buffer overflow\"); } int32_t v3 = v1->count + v2; if (v3 > v1->capacity) { janet_buffer_can_realloc(v1); int32_t v4 = (v3 > (INT32_MAX / 2)) ? INT32_MAX : (v3 * 2); uint8_t *v5 = janet_realloc(v1->data, v4 * sizeof(uint8_t)); janet_gcpressure(v4 - v1->capacity); if (NULL == v5) { JANET_OUT_OF_MEMORY; } v1->data = v5; v1->capacity = v4; } }" := rfl
 /-- src/core/buffer.c janet_buffer_push_bytes -/
-theorem janet_buffer_push_bytes : LibSrc.janet_buffer_push_bytes = "{ if (0 == length) return; janet_buffer_extra(buffer, length); memcpy(buffer->data + buffer->count, string, length); buffer->count += length; }" := rfl
+theorem janet_buffer_push_bytes : LibSrc.janet_buffer_push_bytes = "(JanetBuffer *v1, const uint8_t *v2, int32_t v3) { if (0 == v3) return; janet_buffer_extra(v1, v3); memcpy(v1->data + v1->count, v2, v3); v1->count += v3; }" := rfl
 /-- src/core/buffer.c janet_buffer_push_u8 -/
-theorem janet_buffer_push_u8 : LibSrc.janet_buffer_push_u8 = "{ janet_buffer_extra(buffer, 1); buffer->data[buffer->count] = byte; buffer->count++; }" := rfl
+theorem janet_buffer_push_u8 : LibSrc.janet_buffer_push_u8 = "(JanetBuffer *v1, uint8_t v2) { janet_buffer_extra(v1, 1); v1->data[v1->count] = v2; v1->count++; }" := rfl
 /-- src/core/buffer.c janet_buffer_push_u32 -/
-theorem janet_buffer_push_u32 : LibSrc.janet_buffer_push_u32 = "{ janet_buffer_extra(buffer, 4); buffer->data[buffer->count] = x & 0xFF; buffer->data[buffer->count + 1] = (x >> 8) & 0xFF; buffer->data[buffer->count + 2] = (x >> 16) & 0xFF; buffer->data[buffer->count + 3] = (x >> 24) & 0xFF; buffer->count += 4; }" := rfl
+theorem janet_buffer_push_u32 : LibSrc.janet_buffer_push_u32 = "(JanetBuffer *v1, uint32_t v2) { janet_buffer_extra(v1, 4); v1->data[v1->count] = v2 & 0xFF; v1->data[v1->count + 1] = (v2 >> 8) & 0xFF; v1->data[v1->count + 2] = (v2 >> 16) & 0xFF; v1->data[v1->count + 3] = (v2 >> 24) & 0xFF; v1->count += 4; }" := rfl
 /-- src/core/buffer.c buffer_push_impl -/
-theorem buffer_push_impl : LibSrc.buffer_push_impl = "{ for (int32_t i = argc_offset; i < argc; i++) { if (janet_checktype(argv[i], JANET_NUMBER)) { janet_buffer_push_u8(buffer, (uint8_t)(janet_getinteger(argv, i) & 0xFF)); } else { JanetByteView view = janet_getbytes(argv, i); if (view.bytes == buffer->data) { janet_buffer_extra(buffer, view.len); view.bytes = buffer->data; } janet_buffer_push_bytes(buffer, view.bytes, view.len); } } }" := rfl
+theorem buffer_push_impl : LibSrc.buffer_push_impl = "(JanetBuffer *v1, Janet *v2, int32_t v3, int32_t v4) { for (int32_t v5 = v3; v5 < v4; v5++) { if (janet_checktype(v2[v5], JANET_NUMBER)) { janet_buffer_push_u8(v1, (uint8_t)(janet_getinteger(v2, v5) & 0xFF)); } else { JanetByteView v6 = janet_getbytes(v2, v5); if (v6.bytes == v1->data) { janet_buffer_extra(v1, v6.len); v6.bytes = v1->data; } janet_buffer_push_bytes(v1, v6.bytes, v6.len); } } }" := rfl
 /-- src/core/buffer.c cfun_buffer_push -/
-theorem cfun_buffer_push : LibSrc.cfun_buffer_push = "{ janet_arity(argc, 1, -1); JanetBuffer *buffer = janet_getbuffer(argv, 0); buffer_push_impl(buffer, argv, 1, argc); return argv[0]; }" := rfl
+theorem cfun_buffer_push : LibSrc.cfun_buffer_push = "(int32_t v1, Janet *v2) { janet_arity(v1, 1, -1); JanetBuffer *v3 = janet_getbuffer(v2, 0); buffer_push_impl(v3, v2, 1, v1); return v2[0]; }" := rfl
 /-- src/core/buffer.c cfun_buffer_push_at -/
-theorem cfun_buffer_push_at : LibSrc.cfun_buffer_push_at = "{ janet_arity(argc, 2, -1); JanetBuffer *buffer = janet_getbuffer(argv, 0); int32_t index = janet_getinteger(argv, 1); int32_t old_count = buffer->count; if (index < 0 || index > old_count) { janet_panicf(\"index out of range [0, %d)\", old_count); } buffer->count = index; buffer_push_impl(buffer, argv, 2, argc); if (buffer->count < old_count) { buffer->count = old_count; } return argv[0]; }" := rfl
+theorem cfun_buffer_push_at : LibSrc.cfun_buffer_push_at = "(int32_t v1, Janet *v2) { janet_arity(v1, 2, -1); JanetBuffer *v3 = janet_getbuffer(v2, 0); int32_t v4 = janet_getinteger(v2, 1); int32_t v5 = v3->count; if (v4 < 0 || v4 > v5) { janet_panicf(\"index out of range [0, %d)\", v5); } v3->count = v4; buffer_push_impl(v3, v2, 2, v1); if (v3->count < v5) { v3->count = v5; } return v2[0]; }" := rfl
 /-- src/core/buffer.c cfun_buffer_u8 -/
-theorem cfun_buffer_u8 : LibSrc.cfun_buffer_u8 = "{ int32_t i; janet_arity(argc, 1, -1); JanetBuffer *buffer = janet_getbuffer(argv, 0); for (i = 1; i < argc; i++) { janet_buffer_push_u8(buffer, (uint8_t)(janet_getinteger(argv, i) & 0xFF)); } return argv[0]; }" := rfl
+theorem cfun_buffer_u8 : LibSrc.cfun_buffer_u8 = "(int32_t v1, Janet *v2) { int32_t v3; janet_arity(v1, 1, -1); JanetBuffer *v4 = janet_getbuffer(v2, 0); for (v3 = 1; v3 < v1; v3++) { janet_buffer_push_u8(v4, (uint8_t)(janet_getinteger(v2, v3) & 0xFF)); } return v2[0]; }" := rfl
 /-- src/core/buffer.c cfun_buffer_word -/
-theorem cfun_buffer_word : LibSrc.cfun_buffer_word = "{ int32_t i; janet_arity(argc, 1, -1); JanetBuffer *buffer = janet_getbuffer(argv, 0); for (i = 1; i < argc; i++) { double number = janet_getnumber(argv, i); uint32_t word = (uint32_t) number; if (word != number) janet_panicf(\"cannot convert %v to machine word\", argv[i]); janet_buffer_push_u32(buffer, word); } return argv[0]; }" := rfl
+theorem cfun_buffer_word : LibSrc.cfun_buffer_word = "(int32_t v1, Janet *v2) { int32_t v3; janet_arity(v1, 1, -1); JanetBuffer *v4 = janet_getbuffer(v2, 0); for (v3 = 1; v3 < v1; v3++) { double v5 = janet_getnumber(v2, v3); uint32_t v6 = (uint32_t) v5; if (v6 != v5) janet_panicf(\"cannot convert %v to machine word\", v2[v3]); janet_buffer_push_u32(v4, v6); } return v2[0]; }" := rfl
 /-- src/core/buffer.c cfun_buffer_chars -/
-theorem cfun_buffer_chars : LibSrc.cfun_buffer_chars = "{ int32_t i; janet_arity(argc, 1, -1); JanetBuffer *buffer = janet_getbuffer(argv, 0); for (i = 1; i < argc; i++) { JanetByteView view = janet_getbytes(argv, i); if (view.bytes == buffer->data) { janet_buffer_extra(buffer, view.len); view.bytes = buffer->data; } janet_buffer_push_bytes(buffer, view.bytes, view.len); } return argv[0]; }" := rfl
+theorem cfun_buffer_chars : LibSrc.cfun_buffer_chars = "(int32_t v1, Janet *v2) { int32_t v3; janet_arity(v1, 1, -1); JanetBuffer *v4 = janet_getbuffer(v2, 0); for (v3 = 1; v3 < v1; v3++) { JanetByteView v5 = janet_getbytes(v2, v3); if (v5.bytes == v4->data) { janet_buffer_extra(v4, v5.len); v5.bytes = v4->data; } janet_buffer_push_bytes(v4, v5.bytes, v5.len); } return v2[0]; }" := rfl
 /-- src/core/buffer.c cfun_buffer_popn -/
-theorem cfun_buffer_popn : LibSrc.cfun_buffer_popn = "{ janet_fixarity(argc, 2); JanetBuffer *buffer = janet_getbuffer(argv, 0); int32_t n = janet_getinteger(argv, 1); if (n < 0) janet_panic(\"n must be non-negative\"); if (buffer->count < n) { buffer->count = 0; } else { buffer->count -= n; } return argv[0]; }" := rfl
+theorem cfun_buffer_popn : LibSrc.cfun_buffer_popn = "(int32_t v1, Janet *v2) { janet_fixarity(v1, 2); JanetBuffer *v3 = janet_getbuffer(v2, 0); int32_t v4 = janet_getinteger(v2, 1); if (v4 < 0) janet_panic(\"n must be non-negative\"); if (v3->count < v4) { v3->count = 0; } else { v3->count -= v4; } return v2[0]; }" := rfl
 /-- src/core/buffer.c cfun_buffer_fill -/
-theorem cfun_buffer_fill : LibSrc.cfun_buffer_fill = "{ janet_arity(argc, 1, 2); JanetBuffer *buffer = janet_getbuffer(argv, 0); int32_t byte = 0; if (argc == 2) { byte = janet_getinteger(argv, 1) & 0xFF; } if (buffer->count) { memset(buffer->data, byte, buffer->count); } return argv[0]; }" := rfl
+theorem cfun_buffer_fill : LibSrc.cfun_buffer_fill = "(int32_t v1, Janet *v2) { janet_arity(v1, 1, 2); JanetBuffer *v3 = janet_getbuffer(v2, 0); int32_t v4 = 0; if (v1 == 2) { v4 = janet_getinteger(v2, 1) & 0xFF; } if (v3->count) { memset(v3->data, v4, v3->count); } return v2[0]; }" := rfl
 /-- src/core/buffer.c bitloc -/
-theorem bitloc : LibSrc.bitloc = "{ janet_fixarity(argc, 2); JanetBuffer *buffer = janet_getbuffer(argv, 0); double x = janet_getnumber(argv, 1); int64_t bitindex = (int64_t) x; int64_t byteindex = bitindex >> 3; int which_bit = bitindex & 7; if (bitindex != x || bitindex < 0 || byteindex >= buffer->count) janet_panicf(\"invalid bit index %v\", argv[1]); *b = buffer; *index = (int32_t) byteindex; *bit = which_bit; }" := rfl
+theorem bitloc : LibSrc.bitloc = "(int32_t v1, Janet *v2, JanetBuffer **v3, int32_t *v4, int *v5) { janet_fixarity(v1, 2); JanetBuffer *v6 = janet_getbuffer(v2, 0); double v7 = janet_getnumber(v2, 1); int64_t v8 = (int64_t) v7; int64_t v9 = v8 >> 3; int v10 = v8 & 7; if (v8 != v7 || v8 < 0 || v9 >= v6->count) janet_panicf(\"invalid bit index %v\", v2[1]); *v3 = v6; *v4 = (int32_t) v9; *v5 = v10; }" := rfl
 /-- src/core/buffer.c cfun_buffer_bitset -/
-theorem cfun_buffer_bitset : LibSrc.cfun_buffer_bitset = "{ int bit; int32_t index; JanetBuffer *buffer; bitloc(argc, argv, &buffer, &index, &bit); buffer->data[index] |= 1 << bit; return argv[0]; }" := rfl
+theorem cfun_buffer_bitset : LibSrc.cfun_buffer_bitset = "(int32_t v1, Janet *v2) { int v3; int32_t v4; JanetBuffer *v5; bitloc(v1, v2, &v5, &v4, &v3); v5->data[v4] |= 1 << v3; return v2[0]; }" := rfl
 /-- src/core/buffer.c cfun_buffer_bitclear -/
-theorem cfun_buffer_bitclear : LibSrc.cfun_buffer_bitclear = "{ int bit; int32_t index; JanetBuffer *buffer; bitloc(argc, argv, &buffer, &index, &bit); buffer->data[index] &= ~(1 << bit); return argv[0]; }" := rfl
+theorem cfun_buffer_bitclear : LibSrc.cfun_buffer_bitclear = "(int32_t v1, Janet *v2) { int v3; int32_t v4; JanetBuffer *v5; bitloc(v1, v2, &v5, &v4, &v3); v5->data[v4] &= ~(1 << v3); return v2[0]; }" := rfl
 /-- src/core/buffer.c cfun_buffer_bitget -/
-theorem cfun_buffer_bitget : LibSrc.cfun_buffer_bitget = "{ int bit; int32_t index; JanetBuffer *buffer; bitloc(argc, argv, &buffer, &index, &bit); return janet_wrap_boolean(buffer->data[index] & (1 << bit)); }" := rfl
+theorem cfun_buffer_bitget : LibSrc.cfun_buffer_bitget = "(int32_t v1, Janet *v2) { int v3; int32_t v4; JanetBuffer *v5; bitloc(v1, v2, &v5, &v4, &v3); return janet_wrap_boolean(v5->data[v4] & (1 << v3)); }" := rfl
 /-- src/core/buffer.c cfun_buffer_bittoggle -/
-theorem cfun_buffer_bittoggle : LibSrc.cfun_buffer_bittoggle = "{ int bit; int32_t index; JanetBuffer *buffer; bitloc(argc, argv, &buffer, &index, &bit); buffer->data[index] ^= (1 << bit); return argv[0]; }" := rfl
+theorem cfun_buffer_bittoggle : LibSrc.cfun_buffer_bittoggle = "(int32_t v1, Janet *v2) { int v3; int32_t v4; JanetBuffer *v5; bitloc(v1, v2, &v5, &v4, &v3); v5->data[v4] ^= (1 << v3); return v2[0]; }" := rfl
 /-- src/core/buffer.c cfun_buffer_blit -/
-theorem cfun_buffer_blit : LibSrc.cfun_buffer_blit = "{ janet_arity(argc, 2, 5); JanetBuffer *dest = janet_getbuffer(argv, 0); JanetByteView src = janet_getbytes(argv, 1); int same_buf = src.bytes == dest->data; int32_t offset_dest = 0; int32_t offset_src = 0; if (argc > 2 && !janet_checktype(argv[2], JANET_NIL)) offset_dest = janet_gethalfrange(argv, 2, dest->count, \"dest-start\"); if (argc > 3 && !janet_checktype(argv[3], JANET_NIL)) offset_src = janet_gethalfrange(argv, 3, src.len, \"src-start\"); int32_t length_src; if (argc > 4) { int32_t src_end = src.len; if (!janet_checktype(argv[4], JANET_NIL)) src_end = janet_gethalfrange(argv, 4, src.len, \"src-end\"); length_src = src_end - offset_src; if (length_src < 0) length_src = 0; } else { length_src = src.len - offset_src; } int64_t last = (int64_t) offset_dest + length_src; if (last > INT32_MAX) janet_panic(\"buffer blit out of range\"); int32_t last32 = (int32_t) last; janet_buffer_ensure(dest, last32, 2); if (last32 > dest->count) dest->count = last32; if (length_src) { if (same_buf) { src.bytes = dest->data; memmove(dest->data + offset_dest, src.bytes + offset_src, length_src); } else { memcpy(dest->data + offset_dest, src.bytes + offset_src, length_src); } } return argv[0]; }" := rfl
+theorem cfun_buffer_blit : LibSrc.cfun_buffer_blit = "(int32_t v1, Janet *v2) { janet_arity(v1, 2, 5); JanetBuffer *v3 = janet_getbuffer(v2, 0); JanetByteView v4 = janet_getbytes(v2, 1); int v5 = v4.bytes == v3->data; int32_t v6 = 0; int32_t v7 = 0; if (v1 > 2 && !janet_checktype(v2[2], JANET_NIL)) v6 = janet_gethalfrange(v2, 2, v3->count, \"dest-start\"); if (v1 > 3 && !janet_checktype(v2[3], JANET_NIL)) v7 = janet_gethalfrange(v2, 3, v4.len, \"src-start\"); int32_t v8; if (v1 > 4) { int32_t v9 = v4.len; if (!janet_checktype(v2[4], JANET_NIL)) v9 = janet_gethalfrange(v2, 4, v4.len, \"src-end\"); v8 = v9 - v7; if (v8 < 0) v8 = 0; } else { v8 = v4.len - v7; } int64_t v10 = (int64_t) v6 + v8; if (v10 > INT32_MAX) janet_panic(\"buffer blit out of range\"); int32_t v11 = (int32_t) v10; janet_buffer_ensure(v3, v11, 2); if (v11 > v3->count) v3->count = v11; if (v8) { if (v5) { v4.bytes = v3->data; memmove(v3->data + v6, v4.bytes + v7, v8); } else { memcpy(v3->data + v6, v4.bytes + v7, v8); } } return v2[0]; }" := rfl
 /-- src/core/array.c janet_array_push -/
-theorem janet_array_push : LibSrc.janet_array_push = "{ if (array->count == INT32_MAX) { janet_panic(\"array overflow\"); } int32_t newcount = array->count + 1; janet_array_ensure(array, newcount, 2); array->data[array->count] = x; array->count = newcount; }" := rfl
+theorem janet_array_push : LibSrc.janet_array_push = "(JanetArray *v1, Janet v2) { if (v1->count == INT32_MAX) { janet_panic(\"array overflow\"); } int32_t v3 = v1->count + 1; janet_array_ensure(v1, v3, 2); v1->data[v1->count] = v2; v1->count = v3; }" := rfl
 /-- src/core/array.c cfun_array_fill -/
-theorem cfun_array_fill : LibSrc.cfun_array_fill = "{ janet_arity(argc, 1, 2); JanetArray *array = janet_getarray(argv, 0); Janet x = (argc == 2) ? argv[1] : janet_wrap_nil(); for (int32_t i = 0; i < array->count; i++) { array->data[i] = x; } return argv[0]; }" := rfl
+theorem cfun_array_fill : LibSrc.cfun_array_fill = "(int32_t v1, Janet *v2) { janet_arity(v1, 1, 2); JanetArray *v3 = janet_getarray(v2, 0); Janet v4 = (v1 == 2) ? v2[1] : janet_wrap_nil(); for (int32_t v5 = 0; v5 < v3->count; v5++) { v3->data[v5] = v4; } return v2[0]; }" := rfl
 /-- src/core/array.c cfun_array_slice -/
-theorem cfun_array_slice : LibSrc.cfun_array_slice = "{ JanetView view = janet_getindexed(argv, 0); JanetRange range = janet_getslice(argc, argv); JanetArray *array = janet_array(range.end - range.start); if (array->data) memcpy(array->data, view.items + range.start, sizeof(Janet) * (range.end - range.start)); array->count = range.end - range.start; return janet_wrap_array(array); }" := rfl
+theorem cfun_array_slice : LibSrc.cfun_array_slice = "(int32_t v1, Janet *v2) { JanetView v3 = janet_getindexed(v2, 0); JanetRange v4 = janet_getslice(v1, v2); JanetArray *v5 = janet_array(v4.end - v4.start); if (v5->data) memcpy(v5->data, v3.items + v4.start, sizeof(Janet) * (v4.end - v4.start)); v5->count = v4.end - v4.start; return janet_wrap_array(v5); }" := rfl
 /-- src/core/array.c cfun_array_concat -/
-theorem cfun_array_concat : LibSrc.cfun_array_concat = "{ int32_t i; janet_arity(argc, 1, -1); JanetArray *array = janet_getarray(argv, 0); for (i = 1; i < argc; i++) { switch (janet_type(argv[i])) { default: janet_array_push(array, argv[i]); break; case JANET_ARRAY: case JANET_TUPLE: { int32_t j, len = 0; const Janet *vals = NULL; janet_indexed_view(argv[i], &vals, &len); if (array->data == vals) { int32_t newcount = array->count + len; janet_array_ensure(array, newcount, 2); janet_indexed_view(argv[i], &vals, &len); } for (j = 0; j < len; j++) janet_array_push(array, vals[j]); } break; } } return janet_wrap_array(array); }" := rfl
+theorem cfun_array_concat : LibSrc.cfun_array_concat = "(int32_t v1, Janet *v2) { int32_t v3; janet_arity(v1, 1, -1); JanetArray *v4 = janet_getarray(v2, 0); for (v3 = 1; v3 < v1; v3++) { switch (janet_type(v2[v3])) { default: janet_array_push(v4, v2[v3]); break; case JANET_ARRAY: case JANET_TUPLE: { int32_t v5, v6 = 0; const Janet *v7 = NULL; janet_indexed_view(v2[v3], &v7, &v6); if (v4->data == v7) { int32_t v8 = v4->count + v6; janet_array_ensure(v4, v8, 2); janet_indexed_view(v2[v3], &v7, &v6); } for (v5 = 0; v5 < v6; v5++) janet_array_push(v4, v7[v5]); } break; } } return janet_wrap_array(v4); }" := rfl
 /-- src/core/array.c cfun_array_insert -/
-theorem cfun_array_insert : LibSrc.cfun_array_insert = "{ size_t chunksize, restsize; janet_arity(argc, 2, -1); JanetArray *array = janet_getarray(argv, 0); int32_t at = janet_getinteger(argv, 1); if (at < 0) { at = array->count + at + 1; } if (at < 0 || at > array->count) janet_panicf(\"insertion index %d out of range [0,%d]\", at, array->count); chunksize = (argc - 2) * sizeof(Janet); restsize = (array->count - at) * sizeof(Janet); if (INT32_MAX - (argc - 2) < array->count) { janet_panic(\"array overflow\"); } janet_array_ensure(array, array->count + argc - 2, 2); if (restsize) { memmove(array->data + at + argc - 2, array->data + at, restsize); } safe_memcpy(array->data + at, argv + 2, chunksize); array->count += (argc - 2); return argv[0]; }" := rfl
+theorem cfun_array_insert : LibSrc.cfun_array_insert = "(int32_t v1, Janet *v2) { size_t v3, v4; janet_arity(v1, 2, -1); JanetArray *v5 = janet_getarray(v2, 0); int32_t v6 = janet_getinteger(v2, 1); if (v6 < 0) { v6 = v5->count + v6 + 1; } if (v6 < 0 || v6 > v5->count) janet_panicf(\"insertion index %d out of range [0,%d]\", v6, v5->count); v3 = (v1 - 2) * sizeof(Janet); v4 = (v5->count - v6) * sizeof(Janet); if (INT32_MAX - (v1 - 2) < v5->count) { janet_panic(\"array overflow\"); } janet_array_ensure(v5, v5->count + v1 - 2, 2); if (v4) { memmove(v5->data + v6 + v1 - 2, v5->data + v6, v4); } safe_memcpy(v5->data + v6, v2 + 2, v3); v5->count += (v1 - 2); return v2[0]; }" := rfl
 /-- src/core/array.c cfun_array_remove -/
-theorem cfun_array_remove : LibSrc.cfun_array_remove = "{ janet_arity(argc, 2, 3); JanetArray *array = janet_getarray(argv, 0); int32_t at = janet_getinteger(argv, 1); int32_t n = 1; if (at < 0) { at = array->count + at; } if (at < 0 || at > array->count) janet_panicf(\"removal index %d out of range [0,%d]\", at, array->count); if (argc == 3) { n = janet_getinteger(argv, 2); if (n < 0) janet_panicf(\"expected non-negative integer for argument n, got %v\", argv[2]); } if (n > array->count - at) { n = array->count - at; } if (n > 0) { memmove(array->data + at, array->data + at + n, (size_t)(array->count - at - n) * sizeof(Janet)); array->count -= n; } return argv[0]; }" := rfl
+theorem cfun_array_remove : LibSrc.cfun_array_remove = "(int32_t v1, Janet *v2) { janet_arity(v1, 2, 3); JanetArray *v3 = janet_getarray(v2, 0); int32_t v4 = janet_getinteger(v2, 1); int32_t v5 = 1; if (v4 < 0) { v4 = v3->count + v4; } if (v4 < 0 || v4 > v3->count) janet_panicf(\"removal index %d out of range [0,%d]\", v4, v3->count); if (v1 == 3) { v5 = janet_getinteger(v2, 2); if (v5 < 0) janet_panicf(\"expected non-negative integer for argument n, got %v\", v2[2]); } if (v5 > v3->count - v4) { v5 = v3->count - v4; } if (v5 > 0) { memmove(v3->data + v4, v3->data + v4 + v5, (size_t)(v3->count - v4 - v5) * sizeof(Janet)); v3->count -= v5; } return v2[0]; }" := rfl
 /-- src/core/tuple.c cfun_tuple_slice -/
-theorem cfun_tuple_slice : LibSrc.cfun_tuple_slice = "{ JanetView view = janet_getindexed(argv, 0); JanetRange range = janet_getslice(argc, argv); return janet_wrap_tuple(janet_tuple_n(view.items + range.start, range.end - range.start)); }" := rfl
+theorem cfun_tuple_slice : LibSrc.cfun_tuple_slice = "(int32_t v1, Janet *v2) { JanetView v3 = janet_getindexed(v2, 0); JanetRange v4 = janet_getslice(v1, v2); return janet_wrap_tuple(janet_tuple_n(v3.items + v4.start, v4.end - v4.start)); }" := rfl
 /-- src/core/tuple.c cfun_tuple_join -/
-theorem cfun_tuple_join : LibSrc.cfun_tuple_join = "{ janet_arity(argc, 0, -1); int32_t total_len = 0; for (int32_t i = 0; i < argc; i++) { int32_t len = 0; const Janet *vals = NULL; if (!janet_indexed_view(argv[i], &vals, &len)) { janet_panicf(\"expected indexed type for argument %d, got %v\", i, argv[i]); } if (INT32_MAX - total_len < len) { janet_panic(\"tuple too large\"); } total_len += len; } Janet *tup = janet_tuple_begin(total_len); Janet *tup_cursor = tup; for (int32_t i = 0; i < argc; i++) { int32_t len = 0; const Janet *vals = NULL; janet_indexed_view(argv[i], &vals, &len); safe_memcpy(tup_cursor, vals, len * sizeof(Janet)); tup_cursor += len; } return janet_wrap_tuple(janet_tuple_end(tup)); }" := rfl
+theorem cfun_tuple_join : LibSrc.cfun_tuple_join = "(int32_t v1, Janet *v2) { janet_arity(v1, 0, -1); int32_t v3 = 0; for (int32_t v4 = 0; v4 < v1; v4++) { int32_t v5 = 0; const Janet *v6 = NULL; if (!janet_indexed_view(v2[v4], &v6, &v5)) { janet_panicf(\"expected indexed type for argument %d, got %v\", v4, v2[v4]); } if (INT32_MAX - v3 < v5) { janet_panic(\"tuple too large\"); } v3 += v5; } Janet *v7 = janet_tuple_begin(v3); Janet *v8 = v7; for (int32_t v4 = 0; v4 < v1; v4++) { int32_t v5 = 0; const Janet *v6 = NULL; janet_indexed_view(v2[v4], &v6, &v5); safe_memcpy(v8, v6, v5 * sizeof(Janet)); v8 += v5; } return janet_wrap_tuple(janet_tuple_end(v7)); }" := rfl
 /-- src/core/corelib.c janet_core_range -/
-theorem janet_core_range : LibSrc.janet_core_range = "{ janet_arity(argc, 1, 3); double start = 0, stop = 0, step = 1, count = 0; if (argc == 3) { start = janet_getnumber(argv, 0); stop = janet_getnumber(argv, 1); step = janet_getnumber(argv, 2); count = (step > 0) ? (stop - start) / step : ((step < 0) ? (stop - start) / step : 0); } else if (argc == 2) { start = janet_getnumber(argv, 0); stop = janet_getnumber(argv, 1); count = stop - start; } else { stop = janet_getnumber(argv, 0); count = stop; } count = (count > 0) ? count : 0; int32_t int_count; janet_assert(count >= 0, \"bad range code\"); if (count > (double) INT32_MAX) { janet_panicf(\"range is too large, %f elements\", count); } else { int_count = (int32_t) ceil(count); } if (step > 0.0) { while (int_count < INT32_MAX && start + int_count * step < stop) int_count++; } else if (step < 0.0) { while (int_count < INT32_MAX && start + int_count * step > stop) int_count++; } JanetArray *array = janet_array(int_count); for (int32_t i = 0; i < int_count; i++) { array->data[i] = janet_wrap_number((double) start + (double) i * step); } array->count = int_count; return janet_wrap_array(array); }" := rfl
+theorem janet_core_range : LibSrc.janet_core_range = "(int32_t v1, Janet *v2) { janet_arity(v1, 1, 3); double v3 = 0, v4 = 0, v5 = 1, v6 = 0; if (v1 == 3) { v3 = janet_getnumber(v2, 0); v4 = janet_getnumber(v2, 1); v5 = janet_getnumber(v2, 2); v6 = (v5 > 0) ? (v4 - v3) / v5 : ((v5 < 0) ? (v4 - v3) / v5 : 0); } else if (v1 == 2) { v3 = janet_getnumber(v2, 0); v4 = janet_getnumber(v2, 1); v6 = v4 - v3; } else { v4 = janet_getnumber(v2, 0); v6 = v4; } v6 = (v6 > 0) ? v6 : 0; int32_t v7; janet_assert(v6 >= 0, \"bad range code\"); if (v6 > (double) INT32_MAX) { janet_panicf(\"range is too large, %f elements\", v6); } else { v7 = (int32_t) ceil(v6); } if (v5 > 0.0) { while (v7 < INT32_MAX && v3 + v7 * v5 < v4) v7++; } else if (v5 < 0.0) { while (v7 < INT32_MAX && v3 + v7 * v5 > v4) v7++; } JanetArray *v8 = janet_array(v7); for (int32_t v9 = 0; v9 < v7; v9++) { v8->data[v9] = janet_wrap_number((double) v3 + (double) v9 * v5); } v8->count = v7; return janet_wrap_array(v8); }" := rfl
 /-- src/core/buffer.c should_reverse_bytes -/
-theorem should_reverse_bytes : LibSrc.should_reverse_bytes = "{ JanetKeyword order_kw = janet_getkeyword(argv, argc); if (!janet_cstrcmp(order_kw, \"le\")) { #if JANET_BIG_ENDIAN return 1; #endif } else if (!janet_cstrcmp(order_kw, \"be\")) { #if JANET_LITTLE_ENDIAN return 1; #endif } else if (!janet_cstrcmp(order_kw, \"native\")) { return 0; } else { janet_panicf(\"expected endianness :le, :be or :native, got %v\", argv[1]); } return 0; }" := rfl
+theorem should_reverse_bytes : LibSrc.should_reverse_bytes = "(const Janet *v1, int32_t v2) { JanetKeyword v3 = janet_getkeyword(v1, v2); if (!janet_cstrcmp(v3, \"le\")) { #if JANET_BIG_ENDIAN return 1; #endif } else if (!janet_cstrcmp(v3, \"be\")) { #if JANET_LITTLE_ENDIAN return 1; #endif } else if (!janet_cstrcmp(v3, \"native\")) { return 0; } else { janet_panicf(\"expected endianness :le, :be or :native, got %v\", v1[1]); } return 0; }" := rfl
 /-- src/core/buffer.c reverse_u32 -/
-theorem reverse_u32 : LibSrc.reverse_u32 = "{ uint8_t temp; temp = bytes[3]; bytes[3] = bytes[0]; bytes[0] = temp; temp = bytes[2]; bytes[2] = bytes[1]; bytes[1] = temp; }" := rfl
+theorem reverse_u32 : LibSrc.reverse_u32 = "(uint8_t v1[4]) { uint8_t v2; v2 = v1[3]; v1[3] = v1[0]; v1[0] = v2; v2 = v1[2]; v1[2] = v1[1]; v1[1] = v2; }" := rfl
 /-- src/core/buffer.c reverse_u64 -/
-theorem reverse_u64 : LibSrc.reverse_u64 = "{ uint8_t temp; temp = bytes[7]; bytes[7] = bytes[0]; bytes[0] = temp; temp = bytes[6]; bytes[6] = bytes[1]; bytes[1] = temp; temp = bytes[5]; bytes[5] = bytes[2]; bytes[2] = temp; temp = bytes[4]; bytes[4] = bytes[3]; bytes[3] = temp; }" := rfl
+theorem reverse_u64 : LibSrc.reverse_u64 = "(uint8_t v1[8]) { uint8_t v2; v2 = v1[7]; v1[7] = v1[0]; v1[0] = v2; v2 = v1[6]; v1[6] = v1[1]; v1[1] = v2; v2 = v1[5]; v1[5] = v1[2]; v1[2] = v2; v2 = v1[4]; v1[4] = v1[3]; v1[3] = v2; }" := rfl
 /-- src/core/buffer.c cfun_buffer_push_uint16 -/
-theorem cfun_buffer_push_uint16 : LibSrc.cfun_buffer_push_uint16 = "{ janet_fixarity(argc, 3); JanetBuffer *buffer = janet_getbuffer(argv, 0); int reverse = should_reverse_bytes(argv, 1); uint16_t data = janet_getuinteger16(argv, 2); uint8_t bytes[sizeof(data)]; memcpy(bytes, &data, sizeof(bytes)); if (reverse) { uint8_t temp = bytes[1]; bytes[1] = bytes[0]; bytes[0] = temp; } janet_buffer_push_bytes(buffer, bytes, sizeof(bytes)); return argv[0]; }" := rfl
+theorem cfun_buffer_push_uint16 : LibSrc.cfun_buffer_push_uint16 = "(int32_t v1, Janet *v2) { janet_fixarity(v1, 3); JanetBuffer *v3 = janet_getbuffer(v2, 0); int v4 = should_reverse_bytes(v2, 1); uint16_t v5 = janet_getuinteger16(v2, 2); uint8_t v6[sizeof(v5)]; memcpy(v6, &v5, sizeof(v6)); if (v4) { uint8_t v7 = v6[1]; v6[1] = v6[0]; v6[0] = v7; } janet_buffer_push_bytes(v3, v6, sizeof(v6)); return v2[0]; }" := rfl
 /-- src/core/buffer.c cfun_buffer_push_uint32 -/
-theorem cfun_buffer_push_uint32 : LibSrc.cfun_buffer_push_uint32 = "{ janet_fixarity(argc, 3); JanetBuffer *buffer = janet_getbuffer(argv, 0); int reverse = should_reverse_bytes(argv, 1); uint32_t data = janet_getuinteger(argv, 2); uint8_t bytes[sizeof(data)]; memcpy(bytes, &data, sizeof(bytes)); if (reverse) reverse_u32(bytes); janet_buffer_push_bytes(buffer, bytes, sizeof(bytes)); return argv[0]; }" := rfl
+theorem cfun_buffer_push_uint32 : LibSrc.cfun_buffer_push_uint32 = "(int32_t v1, Janet *v2) { janet_fixarity(v1, 3); JanetBuffer *v3 = janet_getbuffer(v2, 0); int v4 = should_reverse_bytes(v2, 1); uint32_t v5 = janet_getuinteger(v2, 2); uint8_t v6[sizeof(v5)]; memcpy(v6, &v5, sizeof(v6)); if (v4) reverse_u32(v6); janet_buffer_push_bytes(v3, v6, sizeof(v6)); return v2[0]; }" := rfl
 /-- src/core/buffer.c cfun_buffer_push_uint64 -/
-theorem cfun_buffer_push_uint64 : LibSrc.cfun_buffer_push_uint64 = "{ janet_fixarity(argc, 3); JanetBuffer *buffer = janet_getbuffer(argv, 0); int reverse = should_reverse_bytes(argv, 1); uint64_t data = janet_getuinteger64(argv, 2); uint8_t bytes[sizeof(data)]; memcpy(bytes, &data, sizeof(bytes)); if (reverse) reverse_u64(bytes); janet_buffer_push_bytes(buffer, bytes, sizeof(bytes)); return argv[0]; }" := rfl
+theorem cfun_buffer_push_uint64 : LibSrc.cfun_buffer_push_uint64 = "(int32_t v1, Janet *v2) { janet_fixarity(v1, 3); JanetBuffer *v3 = janet_getbuffer(v2, 0); int v4 = should_reverse_bytes(v2, 1); uint64_t v5 = janet_getuinteger64(v2, 2); uint8_t v6[sizeof(v5)]; memcpy(v6, &v5, sizeof(v6)); if (v4) reverse_u64(v6); janet_buffer_push_bytes(v3, v6, sizeof(v6)); return v2[0]; }" := rfl
 /-- src/core/buffer.c cfun_buffer_new_filled -/
-theorem cfun_buffer_new_filled : LibSrc.cfun_buffer_new_filled = "{ janet_arity(argc, 1, 2); int32_t count = janet_getinteger(argv, 0); if (count < 0) count = 0; int32_t byte = 0; if (argc == 2) { byte = janet_getinteger(argv, 1) & 0xFF; } JanetBuffer *buffer = janet_buffer(count); if (buffer->data && count > 0) memset(buffer->data, byte, count); buffer->count = count; return janet_wrap_buffer(buffer); }" := rfl
+theorem cfun_buffer_new_filled : LibSrc.cfun_buffer_new_filled = "(int32_t v1, Janet *v2) { janet_arity(v1, 1, 2); int32_t v3 = janet_getinteger(v2, 0); if (v3 < 0) v3 = 0; int32_t v4 = 0; if (v1 == 2) { v4 = janet_getinteger(v2, 1) & 0xFF; } JanetBuffer *v5 = janet_buffer(v3); if (v5->data && v3 > 0) memset(v5->data, v4, v3); v5->count = v3; return janet_wrap_buffer(v5); }" := rfl
 /-- src/core/array.c janet_array_pop -/
-theorem janet_array_pop : LibSrc.janet_array_pop = "{ if (array->count) { return array->data[--array->count]; } else { return janet_wrap_nil(); } }" := rfl
+theorem janet_array_pop : LibSrc.janet_array_pop = "(JanetArray *v1) { if (v1->count) { return v1->data[--v1->count]; } else { return janet_wrap_nil(); } }" := rfl
 /-- src/core/array.c janet_array_peek -/
-theorem janet_array_peek : LibSrc.janet_array_peek = "{ if (array->count) { return array->data[array->count - 1]; } else { return janet_wrap_nil(); } }" := rfl
+theorem janet_array_peek : LibSrc.janet_array_peek = "(JanetArray *v1) { if (v1->count) { return v1->data[v1->count - 1]; } else { return janet_wrap_nil(); } }" := rfl
 /-- src/core/array.c cfun_array_new_filled -/
-theorem cfun_array_new_filled : LibSrc.cfun_array_new_filled = "{ janet_arity(argc, 1, 2); int32_t count = janet_getnat(argv, 0); Janet x = (argc == 2) ? argv[1] : janet_wrap_nil(); JanetArray *array = janet_array(count); for (int32_t i = 0; i < count; i++) { array->data[i] = x; } array->count = count; return janet_wrap_array(array); }" := rfl
+theorem cfun_array_new_filled : LibSrc.cfun_array_new_filled = "(int32_t v1, Janet *v2) { janet_arity(v1, 1, 2); int32_t v3 = janet_getnat(v2, 0); Janet v4 = (v1 == 2) ? v2[1] : janet_wrap_nil(); JanetArray *v5 = janet_array(v3); for (int32_t v6 = 0; v6 < v3; v6++) { v5->data[v6] = v4; } v5->count = v3; return janet_wrap_array(v5); }" := rfl
 /-- src/core/array.c cfun_array_pop -/
-theorem cfun_array_pop : LibSrc.cfun_array_pop = "{ janet_fixarity(argc, 1); JanetArray *array = janet_getarray(argv, 0); return janet_array_pop(array); }" := rfl
+theorem cfun_array_pop : LibSrc.cfun_array_pop = "(int32_t v1, Janet *v2) { janet_fixarity(v1, 1); JanetArray *v3 = janet_getarray(v2, 0); return janet_array_pop(v3); }" := rfl
 /-- src/core/array.c cfun_array_peek -/
-theorem cfun_array_peek : LibSrc.cfun_array_peek = "{ janet_fixarity(argc, 1); JanetArray *array = janet_getarray(argv, 0); return janet_array_peek(array); }" := rfl
+theorem cfun_array_peek : LibSrc.cfun_array_peek = "(int32_t v1, Janet *v2) { janet_fixarity(v1, 1); JanetArray *v3 = janet_getarray(v2, 0); return janet_array_peek(v3); }" := rfl
 /-- src/core/array.c cfun_array_push -/
-theorem cfun_array_push : LibSrc.cfun_array_push = "{ janet_arity(argc, 1, -1); JanetArray *array = janet_getarray(argv, 0); if (INT32_MAX - argc + 1 <= array->count) { janet_panic(\"array overflow\"); } int32_t newcount = array->count - 1 + argc; janet_array_ensure(array, newcount, 2); if (argc > 1) memcpy(array->data + array->count, argv + 1, (size_t)(argc - 1) * sizeof(Janet)); array->count = newcount; return argv[0]; }" := rfl
+theorem cfun_array_push : LibSrc.cfun_array_push = "(int32_t v1, Janet *v2) { janet_arity(v1, 1, -1); JanetArray *v3 = janet_getarray(v2, 0); if (INT32_MAX - v1 + 1 <= v3->count) { janet_panic(\"array overflow\"); } int32_t v4 = v3->count - 1 + v1; janet_array_ensure(v3, v4, 2); if (v1 > 1) memcpy(v3->data + v3->count, v2 + 1, (size_t)(v1 - 1) * sizeof(Janet)); v3->count = v4; return v2[0]; }" := rfl
 /-- boot.janet each-template -/
-theorem boot_each_template : LibSrc.boot_each_template = "(defn- each-template [binding inx kind body] (with-syms [k] (def ds (if (idempotent? inx) inx (gensym))) ~(do ,(unless (= ds inx) ~(def ,ds ,inx)) (var ,k (,next ,ds nil)) (while (,not= nil ,k) (def ,binding ,(case kind :each ~(,in ,ds ,k) :keys k :pairs ~[,k (,in ,ds ,k)])) ,;body (set ,k (,next ,ds ,k))))))" := rfl
+theorem boot_each_template : LibSrc.boot_each_template = "(defn- each-template [v1 v2 v3 v4] (with-syms [v5] (def v6 (if (idempotent? v2) v2 (gensym))) ~(do ,(unless (= v6 v2) ~(def ,ds ,inx)) (var ,k (,next ,ds nil)) (while (,not= nil ,k) (def ,binding ,(case v3 :each ~(,in ,ds ,k) :keys v5 :pairs ~[,k (,in ,ds ,k)])) ,;body (set ,k (,next ,ds ,k))))))" := rfl
 /-- boot.janet median-of-three -/
 theorem boot_median_of_three : LibSrc.boot_median_of_three = "(defmacro- median-of-three [x y z] ~(if (<= ,x ,y) (if (<= ,y ,z) ,y (if (<= ,z ,x) ,x ,z)) (if (<= ,z ,y) ,y (if (<= ,x ,z) ,x ,z))))" := rfl
 /-- boot.janet sort-partition-template -/
 theorem boot_sort_partition_template : LibSrc.boot_sort_partition_template = "(defmacro- sort-partition-template [ind before? left right pivot] ~(do (while (,before? (in ,ind ,left) ,pivot) (++ ,left)) (while (,before? ,pivot (in ,ind ,right)) (-- ,right))))" := rfl
 /-- boot.janet sort-help -/
-theorem boot_sort_help : LibSrc.boot_sort_help = "(defn- sort-help [a lo hi before?] (when (< lo hi) (def [x y z] [(in a lo) (in a (div (+ lo hi) 2)) (in a hi)]) (def pivot (median-of-three x y z)) (var left lo) (var right hi) (while true (case before? < (sort-partition-template a < left right pivot) > (sort-partition-template a > left right pivot) (sort-partition-template a before? left right pivot)) (when (<= left right) (def tmp (in a left)) (set (a left) (in a right)) (set (a right) tmp) (++ left) (-- right)) (if (>= left right) (break))) (if (< lo right) (sort-help a lo right before?)) (if (< left hi) (sort-help a left hi before?))) a)" := rfl
+theorem boot_sort_help : LibSrc.boot_sort_help = "(defn- sort-help [v1 v2 v3 v4] (when (< v2 v3) (def [v5 v6 v7] [(in v1 v2) (in v1 (div (+ v2 v3) 2)) (in v1 v3)]) (def v8 (median-of-three v5 v6 v7)) (var v9 v2) (var v10 v3) (while true (case v4 < (sort-partition-template v1 < v9 v10 v8) > (sort-partition-template v1 > v9 v10 v8) (sort-partition-template v1 v4 v9 v10 v8)) (when (<= v9 v10) (def v11 (in v1 v9)) (set (v1 v9) (in v1 v10)) (set (v1 v10) v11) (++ v9) (-- v10)) (if (>= v9 v10) (break))) (if (< v2 v10) (sort-help v1 v2 v10 v4)) (if (< v9 v3) (sort-help v1 v9 v3 v4))) v1)" := rfl
 /-- boot.janet sort -/
-theorem boot_sort : LibSrc.boot_sort = "(defn sort [ind &opt before?] (default before? <) (sort-help ind 0 (- (length ind) 1) before?))" := rfl
+theorem boot_sort : LibSrc.boot_sort = "(defn sort [v1 &opt v2] (default v2 <) (sort-help v1 0 (- (length v1) 1) v2))" := rfl
 /-- boot.janet sort-by -/
-theorem boot_sort_by : LibSrc.boot_sort_by = "(defn sort-by [f ind] (sort ind (fn :sort-by-comp [x y] (< (f x) (f y)))))" := rfl
+theorem boot_sort_by : LibSrc.boot_sort_by = "(defn sort-by [v1 v2] (sort v2 (fn :sort-by-comp [v3 v4] (< (v1 v3) (v1 v4)))))" := rfl
 /-- boot.janet sorted -/
-theorem boot_sorted : LibSrc.boot_sorted = "(defn sorted [ind &opt before?] (sort (array/slice ind) before?))" := rfl
+theorem boot_sorted : LibSrc.boot_sorted = "(defn sorted [v1 &opt v2] (sort (array/slice v1) v2))" := rfl
 /-- boot.janet sorted-by -/
-theorem boot_sorted_by : LibSrc.boot_sorted_by = "(defn sorted-by [f ind] (sorted ind (fn :sorted-by-comp [x y] (< (f x) (f y)))))" := rfl
+theorem boot_sorted_by : LibSrc.boot_sorted_by = "(defn sorted-by [v1 v2] (sorted v2 (fn :sorted-by-comp [v3 v4] (< (v1 v3) (v1 v4)))))" := rfl
 /-- boot.janet reduce -/
-theorem boot_reduce : LibSrc.boot_reduce = "(defn reduce [f init ind] (var accum init) (each el ind (set accum (f accum el))) accum)" := rfl
+theorem boot_reduce : LibSrc.boot_reduce = "(defn reduce [v1 v2 v3] (var v4 v2) (each v5 v3 (set v4 (v1 v4 v5))) v4)" := rfl
 /-- boot.janet reduce2 -/
-theorem boot_reduce2 : LibSrc.boot_reduce2 = "(defn reduce2 [f ind] (var k (next ind)) (if (= nil k) (break nil)) (var res (in ind k)) (set k (next ind k)) (while (not= nil k) (set res (f res (in ind k))) (set k (next ind k))) res)" := rfl
+theorem boot_reduce2 : LibSrc.boot_reduce2 = "(defn reduce2 [v1 v2] (var v3 (next v2)) (if (= nil v3) (break nil)) (var v4 (in v2 v3)) (set v3 (next v2 v3)) (while (not= nil v3) (set v4 (v1 v4 (in v2 v3))) (set v3 (next v2 v3))) v4)" := rfl
 /-- boot.janet map-aggregator -/
 theorem boot_map_aggregator : LibSrc.boot_map_aggregator = "(defmacro- map-aggregator [maptype res val] (case maptype :map ~(array/push ,res ,val) :mapcat ~(array/concat ,res ,val) :keep ~(if (def y ,val) (array/push ,res y)) :count ~(if ,val (++ ,res)) :some ~(if (def y ,val) (do (set ,res y) (break))) :all ~(if (def y ,val) nil (do (set ,res y) (break)))))" := rfl
 /-- boot.janet map-n -/
@@ -178,87 +178,87 @@ theorem boot_map_n : LibSrc.boot_map_n = "(defmacro- map-n [n maptype res f ind 
 /-- boot.janet map-template -/
 theorem boot_map_template : LibSrc.boot_map_template = "(defmacro- map-template [maptype res f ind inds] ~(do (def ninds (length ,inds)) (case ninds 0 (each x ,ind (map-aggregator ,maptype ,res (,f x))) 1 (map-n 1 ,maptype ,res ,f ,ind ,inds) 2 (map-n 2 ,maptype ,res ,f ,ind ,inds) 3 (map-n 3 ,maptype ,res ,f ,ind ,inds) (do (def iter-keys (array/new-filled ninds)) (def call-buffer (array/new-filled ninds)) (var done false) (each x ,ind (forv i 0 ninds (let [old-key (in iter-keys i) ii (in ,inds i) new-key (next ii old-key)] (if (= nil new-key) (do (set done true) (break)) (do (set (iter-keys i) new-key) (set (call-buffer i) (in ii new-key)))))) (if done (break)) (map-aggregator ,maptype ,res (,f x ;call-buffer)))))))" := rfl
 /-- boot.janet map -/
-theorem boot_map : LibSrc.boot_map = "(defn map [f ind & inds] (def res @[]) (map-template :map res f ind inds) res)" := rfl
+theorem boot_map : LibSrc.boot_map = "(defn map [v1 v2 & v3] (def v4 @[]) (map-template :map v4 v1 v2 v3) v4)" := rfl
 /-- boot.janet filter -/
-theorem boot_filter : LibSrc.boot_filter = "(defn filter [pred ind] (def res @[]) (each item ind (if (pred item) (array/push res item))) res)" := rfl
+theorem boot_filter : LibSrc.boot_filter = "(defn filter [v1 v2] (def v3 @[]) (each v4 v2 (if (v1 v4) (array/push v3 v4))) v3)" := rfl
 /-- boot.janet count -/
-theorem boot_count : LibSrc.boot_count = "(defn count [pred ind & inds] (var res 0) (map-template :count res pred ind inds) res)" := rfl
+theorem boot_count : LibSrc.boot_count = "(defn count [v1 v2 & v3] (var v4 0) (map-template :count v4 v1 v2 v3) v4)" := rfl
 /-- boot.janet find-index -/
-theorem boot_find_index : LibSrc.boot_find_index = "(defn find-index [pred ind &opt dflt] (var k nil) (var ret dflt) (while true (set k (next ind k)) (if (= k nil) (break)) (def item (in ind k)) (when (pred item) (set ret k) (break))) ret)" := rfl
+theorem boot_find_index : LibSrc.boot_find_index = "(defn find-index [v1 v2 &opt v3] (var v4 nil) (var v5 v3) (while true (set v4 (next v2 v4)) (if (= v4 nil) (break)) (def v6 (in v2 v4)) (when (v1 v6) (set v5 v4) (break))) v5)" := rfl
 /-- boot.janet find -/
-theorem boot_find : LibSrc.boot_find = "(defn find [pred ind &opt dflt] (var k nil) (var ret dflt) (while true (set k (next ind k)) (if (= k nil) (break)) (def item (in ind k)) (when (pred item) (set ret item) (break))) ret)" := rfl
+theorem boot_find : LibSrc.boot_find = "(defn find [v1 v2 &opt v3] (var v4 nil) (var v5 v3) (while true (set v4 (next v2 v4)) (if (= v4 nil) (break)) (def v6 (in v2 v4)) (when (v1 v6) (set v5 v6) (break))) v5)" := rfl
 /-- boot.janet index-of -/
-theorem boot_index_of : LibSrc.boot_index_of = "(defn index-of [x ind &opt dflt] (var k (next ind nil)) (var ret dflt) (while (not= nil k) (when (= (in ind k) x) (set ret k) (break)) (set k (next ind k))) ret)" := rfl
+theorem boot_index_of : LibSrc.boot_index_of = "(defn index-of [v1 v2 &opt v3] (var v4 (next v2 nil)) (var v5 v3) (while (not= nil v4) (when (= (in v2 v4) v1) (set v5 v4) (break)) (set v4 (next v2 v4))) v5)" := rfl
 /-- boot.janet take-n-slice -/
-theorem boot_take_n_slice : LibSrc.boot_take_n_slice = "(defn- take-n-slice [f n ind] (def len (length ind)) (def m (+ len n)) (def start (if (< n 0 m) m 0)) (def end (if (<= 0 n len) n len)) (f ind start end))" := rfl
+theorem boot_take_n_slice : LibSrc.boot_take_n_slice = "(defn- take-n-slice [v1 v2 v3] (def v4 (length v3)) (def v5 (+ v4 v2)) (def v6 (if (< v2 0 v5) v5 0)) (def v7 (if (<= 0 v2 v4) v2 v4)) (v1 v3 v6 v7))" := rfl
 /-- boot.janet take -/
-theorem boot_take : LibSrc.boot_take = "(defn take [n ind] (cond (indexed? ind) (take-n-slice tuple/slice n ind) (bytes? ind) (take-n-slice string/slice n ind) (dictionary? ind) (do (var left n) (tabseq [[i x] :pairs ind :until (< (-- left) 0)] i x)) (do (def res @[]) (var key nil) (repeat n (if (= nil (set key (next ind key))) (break)) (array/push res (in ind key))) res)))" := rfl
+theorem boot_take : LibSrc.boot_take = "(defn take [v1 v2] (cond (indexed? v2) (take-n-slice tuple/slice v1 v2) (bytes? v2) (take-n-slice string/slice v1 v2) (dictionary? v2) (do (var v3 v1) (tabseq [[i x] :pairs v2 :until (< (-- v3) 0)] i x)) (do (def v4 @[]) (var v5 nil) (repeat v1 (if (= nil (set v5 (next v2 v5))) (break)) (array/push v4 (in v2 v5))) v4)))" := rfl
 /-- boot.janet take-until-slice -/
-theorem boot_take_until_slice : LibSrc.boot_take_until_slice = "(defn- take-until-slice [f pred ind] (def len (length ind)) (def i (find-index pred ind)) (def end (if (nil? i) len i)) (f ind 0 end))" := rfl
+theorem boot_take_until_slice : LibSrc.boot_take_until_slice = "(defn- take-until-slice [v1 v2 v3] (def v4 (length v3)) (def v5 (find-index v2 v3)) (def v6 (if (nil? v5) v4 v5)) (v1 v3 0 v6))" := rfl
 /-- boot.janet take-until -/
-theorem boot_take_until : LibSrc.boot_take_until = "(defn take-until [pred ind] (cond (indexed? ind) (take-until-slice tuple/slice pred ind) (bytes? ind) (take-until-slice string/slice pred ind) (dictionary? ind) (tabseq [[i x] :pairs ind :until (pred x)] i x) (seq [x :in ind :until (pred x)] x)))" := rfl
+theorem boot_take_until : LibSrc.boot_take_until = "(defn take-until [v1 v2] (cond (indexed? v2) (take-until-slice tuple/slice v1 v2) (bytes? v2) (take-until-slice string/slice v1 v2) (dictionary? v2) (tabseq [[i x] :pairs v2 :until (v1 x)] i x) (seq [x :in v2 :until (v1 x)] x)))" := rfl
 /-- boot.janet take-while -/
-theorem boot_take_while : LibSrc.boot_take_while = "(defn take-while [pred ind] (take-until (complement pred) ind))" := rfl
+theorem boot_take_while : LibSrc.boot_take_while = "(defn take-while [v1 v2] (take-until (complement v1) v2))" := rfl
 /-- boot.janet drop-n-slice -/
-theorem boot_drop_n_slice : LibSrc.boot_drop_n_slice = "(defn- drop-n-slice [f n ind] (def len (length ind)) (cond (<= 0 n len) (f ind n) (< (- len) n 0) (f ind 0 (+ len n)) (f ind len)))" := rfl
+theorem boot_drop_n_slice : LibSrc.boot_drop_n_slice = "(defn- drop-n-slice [v1 v2 v3] (def v4 (length v3)) (cond (<= 0 v2 v4) (v1 v3 v2) (< (- v4) v2 0) (v1 v3 0 (+ v4 v2)) (v1 v3 v4)))" := rfl
 /-- boot.janet drop -/
-theorem boot_drop : LibSrc.boot_drop = "(defn drop [n ind] (cond (indexed? ind) (drop-n-slice tuple/slice n ind) (bytes? ind) (drop-n-slice string/slice n ind) (struct? ind) (drop-n-dict struct/to-table n ind) (table? ind) (drop-n-dict table/clone n ind) (do (var key nil) (repeat n (if (= nil (set key (next ind key))) (break))) ind)))" := rfl
+theorem boot_drop : LibSrc.boot_drop = "(defn drop [v1 v2] (cond (indexed? v2) (drop-n-slice tuple/slice v1 v2) (bytes? v2) (drop-n-slice string/slice v1 v2) (struct? v2) (drop-n-dict struct/to-table v1 v2) (table? v2) (drop-n-dict table/clone v1 v2) (do (var v3 nil) (repeat v1 (if (= nil (set v3 (next v2 v3))) (break))) v2)))" := rfl
 /-- boot.janet drop-until-slice -/
-theorem boot_drop_until_slice : LibSrc.boot_drop_until_slice = "(defn- drop-until-slice [f pred ind] (def len (length ind)) (def i (find-index pred ind)) (def start (if (nil? i) len i)) (f ind start))" := rfl
+theorem boot_drop_until_slice : LibSrc.boot_drop_until_slice = "(defn- drop-until-slice [v1 v2 v3] (def v4 (length v3)) (def v5 (find-index v2 v3)) (def v6 (if (nil? v5) v4 v5)) (v1 v3 v6))" := rfl
 /-- boot.janet drop-until -/
-theorem boot_drop_until : LibSrc.boot_drop_until = "(defn drop-until [pred ind] (cond (indexed? ind) (drop-until-slice tuple/slice pred ind) (bytes? ind) (drop-until-slice string/slice pred ind) (struct? ind) (drop-until-dict struct/to-table pred ind) (table? ind) (drop-until-dict table/clone pred ind) (do (find pred ind) ind)))" := rfl
+theorem boot_drop_until : LibSrc.boot_drop_until = "(defn drop-until [v1 v2] (cond (indexed? v2) (drop-until-slice tuple/slice v1 v2) (bytes? v2) (drop-until-slice string/slice v1 v2) (struct? v2) (drop-until-dict struct/to-table v1 v2) (table? v2) (drop-until-dict table/clone v1 v2) (do (find v1 v2) v2)))" := rfl
 /-- boot.janet drop-while -/
-theorem boot_drop_while : LibSrc.boot_drop_while = "(defn drop-while [pred ind] (drop-until (complement pred) ind))" := rfl
+theorem boot_drop_while : LibSrc.boot_drop_while = "(defn drop-while [v1 v2] (drop-until (complement v1) v2))" := rfl
 /-- boot.janet do-extreme -/
 theorem boot_do_extreme : LibSrc.boot_do_extreme = "(defmacro- do-extreme [order args] ~(do (def ds ,args) (var k (next ds nil)) (var ret (get ds k)) (while (,not= nil (set k (next ds k))) (def x (in ds k)) (if (,order x ret) (set ret x))) ret))" := rfl
 /-- boot.janet extreme -/
-theorem boot_extreme : LibSrc.boot_extreme = "(defn extreme [order args] (do-extreme order args))" := rfl
+theorem boot_extreme : LibSrc.boot_extreme = "(defn extreme [v1 v2] (do-extreme v1 v2))" := rfl
 /-- boot.janet max -/
-theorem boot_max : LibSrc.boot_max = "(defn max [& args] (do-extreme > args))" := rfl
+theorem boot_max : LibSrc.boot_max = "(defn max [& v1] (do-extreme > v1))" := rfl
 /-- boot.janet min -/
-theorem boot_min : LibSrc.boot_min = "(defn min [& args] (do-extreme < args))" := rfl
+theorem boot_min : LibSrc.boot_min = "(defn min [& v1] (do-extreme < v1))" := rfl
 /-- boot.janet max-of -/
-theorem boot_max_of : LibSrc.boot_max_of = "(defn max-of [args] (do-extreme > args))" := rfl
+theorem boot_max_of : LibSrc.boot_max_of = "(defn max-of [v1] (do-extreme > v1))" := rfl
 /-- boot.janet min-of -/
-theorem boot_min_of : LibSrc.boot_min_of = "(defn min-of [args] (do-extreme < args))" := rfl
+theorem boot_min_of : LibSrc.boot_min_of = "(defn min-of [v1] (do-extreme < v1))" := rfl
 /-- boot.janet sum -/
-theorem boot_sum : LibSrc.boot_sum = "(defn sum [xs] (var accum 0) (each x xs (+= accum x)) accum)" := rfl
+theorem boot_sum : LibSrc.boot_sum = "(defn sum [v1] (var v2 0) (each v3 v1 (+= v2 v3)) v2)" := rfl
 /-- boot.janet product -/
-theorem boot_product : LibSrc.boot_product = "(defn product [xs] (var accum 1) (each x xs (*= accum x)) accum)" := rfl
+theorem boot_product : LibSrc.boot_product = "(defn product [v1] (var v2 1) (each v3 v1 (*= v2 v3)) v2)" := rfl
 /-- boot.janet reverse -/
-theorem boot_reverse : LibSrc.boot_reverse = "(defn reverse [t] (if (lengthable? t) (do (var n (length t)) (def ret (if (bytes? t) (buffer/new-filled n) (array/new-filled n))) (each v t (put ret (-- n) v)) ret) (reverse! (seq [v :in t] v))))" := rfl
+theorem boot_reverse : LibSrc.boot_reverse = "(defn reverse [v1] (if (lengthable? v1) (do (var v2 (length v1)) (def v3 (if (bytes? v1) (buffer/new-filled v2) (array/new-filled v2))) (each v4 v1 (put v3 (-- v2) v4)) v3) (reverse! (seq [v4 :in v1] v4))))" := rfl
 /-- boot.janet reverse! -/
-theorem boot_reverse_bang : LibSrc.boot_reverse_bang = "(defn reverse! [t] (var i 0) (var j (length t)) (while (< i (-- j)) (def ti (in t i)) (put t i (in t j)) (put t j ti) (++ i)) t)" := rfl
+theorem boot_reverse_bang : LibSrc.boot_reverse_bang = "(defn reverse! [v1] (var v2 0) (var v3 (length v1)) (while (< v2 (-- v3)) (def v4 (in v1 v2)) (put v1 v2 (in v1 v3)) (put v1 v3 v4) (++ v2)) v1)" := rfl
 /-- boot.janet zipcoll -/
-theorem boot_zipcoll : LibSrc.boot_zipcoll = "(defn zipcoll [ks vs] (def res @{}) (var kk nil) (var vk nil) (while true (set kk (next ks kk)) (if (= nil kk) (break)) (set vk (next vs vk)) (if (= nil vk) (break)) (put res (in ks kk) (in vs vk))) res)" := rfl
+theorem boot_zipcoll : LibSrc.boot_zipcoll = "(defn zipcoll [v1 v2] (def v3 @{}) (var v4 nil) (var v5 nil) (while true (set v4 (next v1 v4)) (if (= nil v4) (break)) (set v5 (next v2 v5)) (if (= nil v5) (break)) (put v3 (in v1 v4) (in v2 v5))) v3)" := rfl
 /-- boot.janet distinct -/
-theorem boot_distinct : LibSrc.boot_distinct = "(defn distinct [xs] (def ret @[]) (def seen @{}) (each x xs (if (in seen x) nil (do (put seen x true) (array/push ret x)))) ret)" := rfl
+theorem boot_distinct : LibSrc.boot_distinct = "(defn distinct [v1] (def v2 @[]) (def v3 @{}) (each v4 v1 (if (in v3 v4) nil (do (put v3 v4 true) (array/push v2 v4)))) v2)" := rfl
 /-- boot.janet frequencies -/
-theorem boot_frequencies : LibSrc.boot_frequencies = "(defn frequencies [ind] (def freqs @{}) (each x ind (def n (in freqs x)) (set (freqs x) (if n (+ 1 n) 1))) freqs)" := rfl
+theorem boot_frequencies : LibSrc.boot_frequencies = "(defn frequencies [v1] (def v2 @{}) (each v3 v1 (def v4 (in v2 v3)) (set (v2 v3) (if v4 (+ 1 v4) 1))) v2)" := rfl
 /-- boot.janet merge -/
-theorem boot_merge : LibSrc.boot_merge = "(defn merge [& colls] (def container @{}) (loop [c :in colls key :keys c] (put container key (in c key))) container)" := rfl
+theorem boot_merge : LibSrc.boot_merge = "(defn merge [& v1] (def v2 @{}) (loop [c :in v1 key :keys c] (put v2 key (in c key))) v2)" := rfl
 /-- boot.janet merge-into -/
-theorem boot_merge_into : LibSrc.boot_merge_into = "(defn merge-into [tab & colls] (loop [c :in colls key :keys c] (put tab key (in c key))) tab)" := rfl
+theorem boot_merge_into : LibSrc.boot_merge_into = "(defn merge-into [v1 & v2] (loop [c :in v2 key :keys c] (put v1 key (in c key))) v1)" := rfl
 /-- boot.janet interleave -/
-theorem boot_interleave : LibSrc.boot_interleave = "(defn interleave [& cols] (mapcat tuple ;cols))" := rfl
+theorem boot_interleave : LibSrc.boot_interleave = "(defn interleave [& v1] (mapcat tuple ;cols))" := rfl
 /-- boot.janet interpose -/
-theorem boot_interpose : LibSrc.boot_interpose = "(defn interpose [sep ind] (var k (next ind nil)) (if (not= nil k) (if (lengthable? ind) (do (def ret (array/new-filled (- (* 2 (length ind)) 1) sep)) (var i 0) (while (not= nil k) (put ret i (in ind k)) (set k (next ind k)) (+= i 2)) ret) (do (def ret @[(in ind k)]) (while (not= nil (set k (next ind k))) (array/push ret sep (in ind k))) ret)) @[]))" := rfl
+theorem boot_interpose : LibSrc.boot_interpose = "(defn interpose [v1 v2] (var v3 (next v2 nil)) (if (not= nil v3) (if (lengthable? v2) (do (def v4 (array/new-filled (- (* 2 (length v2)) 1) v1)) (var v5 0) (while (not= nil v3) (put v4 v5 (in v2 v3)) (set v3 (next v2 v3)) (+= v5 2)) v4) (do (def v4 @[(in v2 v3)]) (while (not= nil (set v3 (next v2 v3))) (array/push v4 v1 (in v2 v3))) v4)) @[]))" := rfl
 /-- boot.janet partition-slice -/
-theorem boot_partition_slice : LibSrc.boot_partition_slice = "(defn- partition-slice [f n ind] (var [start end] [0 n]) (def len (length ind)) (def parts (div len n)) (def ret (array/new-filled parts)) (forv k 0 parts (put ret k (f ind start end)) (set start end) (+= end n)) (if (< start len) (array/push ret (f ind start))) ret)" := rfl
+theorem boot_partition_slice : LibSrc.boot_partition_slice = "(defn- partition-slice [v1 v2 v3] (var [v4 v5] [0 v2]) (def v6 (length v3)) (def v7 (div v6 v2)) (def v8 (array/new-filled v7)) (forv v9 0 v7 (put v8 v9 (v1 v3 v4 v5)) (set v4 v5) (+= v5 v2)) (if (< v4 v6) (array/push v8 (v1 v3 v4))) v8)" := rfl
 /-- boot.janet partition -/
-theorem boot_partition : LibSrc.boot_partition = "(defn partition [n ind] (cond (indexed? ind) (partition-slice tuple/slice n ind) (bytes? ind) (partition-slice string/slice n ind) (partition-slice tuple/slice n (values ind))))" := rfl
+theorem boot_partition : LibSrc.boot_partition = "(defn partition [v1 v2] (cond (indexed? v2) (partition-slice tuple/slice v1 v2) (bytes? v2) (partition-slice string/slice v1 v2) (partition-slice tuple/slice v1 (values v2))))" := rfl
 /-- boot.janet flatten-into -/
-theorem boot_flatten_into : LibSrc.boot_flatten_into = "(defn flatten-into [into xs] (each x xs (if (indexed? x) (flatten-into into x) (array/push into x))) into)" := rfl
+theorem boot_flatten_into : LibSrc.boot_flatten_into = "(defn flatten-into [v1 v2] (each v3 v2 (if (indexed? v3) (flatten-into v1 v3) (array/push v1 v3))) v1)" := rfl
 /-- boot.janet flatten -/
-theorem boot_flatten : LibSrc.boot_flatten = "(defn flatten [xs] (flatten-into @[] xs))" := rfl
+theorem boot_flatten : LibSrc.boot_flatten = "(defn flatten [v1] (flatten-into @[] v1))" := rfl
 /-- boot.janet complement -/
-theorem boot_complement : LibSrc.boot_complement = "(defn complement [f] (fn :complement [x] (not (f x))))" := rfl
+theorem boot_complement : LibSrc.boot_complement = "(defn complement [v1] (fn :complement [v2] (not (v1 v2))))" := rfl
 /-- boot.janet keep -/
-theorem boot_keep : LibSrc.boot_keep = "(defn keep [pred ind & inds] (def res @[]) (map-template :keep res pred ind inds) res)" := rfl
+theorem boot_keep : LibSrc.boot_keep = "(defn keep [v1 v2 & v3] (def v4 @[]) (map-template :keep v4 v1 v2 v3) v4)" := rfl
 /-- boot.janet mapcat -/
-theorem boot_mapcat : LibSrc.boot_mapcat = "(defn mapcat [f ind & inds] (def res @[]) (map-template :mapcat res f ind inds) res)" := rfl
+theorem boot_mapcat : LibSrc.boot_mapcat = "(defn mapcat [v1 v2 & v3] (def v4 @[]) (map-template :mapcat v4 v1 v2 v3) v4)" := rfl
 /-- boot.janet group-by -/
-theorem boot_group_by : LibSrc.boot_group_by = "(defn group-by [f ind] (def ret @{}) (each x ind (def y (f x)) (if-let [arr (get ret y)] (array/push arr x) (put ret y @[x]))) ret)" := rfl
+theorem boot_group_by : LibSrc.boot_group_by = "(defn group-by [v1 v2] (def v3 @{}) (each v4 v2 (def v5 (v1 v4)) (if-let [v6 (get v3 v5)] (array/push v6 v4) (put v3 v5 @[v4]))) v3)" := rfl
 
 end JanetModel.Lib.SrcTie
 
